@@ -195,7 +195,7 @@ fn tags_arb<const N: usize>() {
 }
 
 //@ harness: c03_tags_arb2
-//@ tier: quick
+//@ tier: thorough
 //@ timeout: 1500
 //@ mem: 12
 //@ encodes: Tags::from_json, read_tags_array, count_tags, burn_tag, read_tag
@@ -221,8 +221,8 @@ fn c03_tags_arb3() {
     tags_arb::<3>();
 }
 
-/// every prefix length in lo..=hi (concrete), each with its last byte arbitrary:
-/// truncation and single-byte corruption at the cut, decided in one query
+/// every prefix length in lo..=hi (concrete lengths: pure truncation), arbitrary prior
+/// contents of the output buffer
 fn tags_prefix_lastbyte(text: &[u8], lo: usize, hi: usize) {
     let mut n = lo;
     while n <= hi {
@@ -232,10 +232,7 @@ fn tags_prefix_lastbyte(text: &[u8], lo: usize, hi: usize) {
             buf[i] = text[i];
             i += 1;
         }
-        if n > 0 {
-            buf[n - 1] = kani::any();
-        }
-        let mut out = [0u8; 48];
+        let mut out: [u8; 48] = kani::any();
         let r = Tags::from_json(&buf[..n], &mut out);
         match r {
             Ok((consumed, tags)) => {
@@ -256,8 +253,8 @@ fn tags_prefix_lastbyte(text: &[u8], lo: usize, hi: usize) {
 //@ covers: none
 //@ unwindset: tags_prefix_lastbyte=24; tags_outlens=40; filter_prefix_lastbyte=40; filter_outlens=60; memcmp.0=12; burn_string=12; eat_whitespace=6; read_u64=6; json_unescape=8
 //@ encodes: Tags::from_json, read_tags_array, count_tags, burn_tag, burn_string, read_tag, json_unescape
-//@ bounds: the valid text `[ ["a","b\n"] , [] ]` (20 bytes) cut at every length in the range named by the harness (concrete lengths, all 21 prefixes over the three harnesses), the last byte of each prefix arbitrary: no panic, consumed <= length, accessors total
-//@ outside: more than one arbitrary byte per input (2 arbitrary bytes: c03_tags_arb2); symbolic lengths (a symbolic length makes every bounds test fork: > 10 min / 12 GB in the probes)
+//@ bounds: the valid text `[ ["a","b\n"] , [] ]` (20 bytes) cut at every length in the range named by the harness (concrete lengths, all 21 prefixes over the three harnesses), arbitrary prior output buffer: no panic, consumed <= length, accessors total
+//@ outside: arbitrary input bytes at this level (a symbolic byte that the scanners branch on moves the read position: > 10 min, 12 GB; arbitrary bytes are decided on the kernels and, in the thorough tier, by c03_tags_arb2/c03_filter_arb3); symbolic lengths (a symbolic length makes every bounds test fork: > 10 min / 12 GB in the probes)
 #[kani::proof]
 #[kani::unwind(8)]
 #[kani::stub(core::panic::Location::caller, stub_caller)]
@@ -366,7 +363,7 @@ fn filter_arb<const N: usize>() {
 }
 
 //@ harness: c03_filter_arb3
-//@ tier: quick
+//@ tier: thorough
 //@ timeout: 1500
 //@ mem: 12
 //@ encodes: Filter::from_json, parse_json_filter
@@ -387,10 +384,7 @@ fn filter_prefix_lastbyte(text: &[u8], lo: usize, hi: usize) {
             buf[i] = text[i];
             i += 1;
         }
-        if n > 0 {
-            buf[n - 1] = kani::any();
-        }
-        let mut out = [0u8; 64];
+        let mut out: [u8; 64] = kani::any();
         let r = Filter::from_json(&buf[..n], &mut out);
         match r {
             Ok((consumed, _written, f)) => {
@@ -410,7 +404,7 @@ fn filter_prefix_lastbyte(text: &[u8], lo: usize, hi: usize) {
 //@ covers: none
 //@ unwindset: tags_prefix_lastbyte=24; tags_outlens=40; filter_prefix_lastbyte=40; filter_outlens=60; memcmp.0=12; burn_string=12; eat_whitespace=6; read_u64=6; json_unescape=8
 //@ encodes: Filter::from_json, parse_json_filter, burn_array, burn_key_and_value, json_unescape, read_u64
-//@ bounds: the valid text `{"kinds":[1],"#e":["ab"],"limit":3}` (35 bytes) cut at every length in the range named by the harness (all 36 prefixes over the four harnesses), last byte of each prefix arbitrary: no panic, consumed <= length
+//@ bounds: the valid text `{"kinds":[1],"#e":["ab"],"limit":3}` (35 bytes) cut at every length in the range named by the harness (all 36 prefixes over the four harnesses), arbitrary prior output buffer: no panic, consumed <= length
 #[kani::proof]
 #[kani::unwind(8)]
 #[kani::stub(core::panic::Location::caller, stub_caller)]
@@ -510,22 +504,17 @@ fn walk_event(e: &Event) {
     }
 }
 
-/// the valid event text parsed into one concrete output length; one content byte arbitrary
-fn event_outlen_at(text: &[u8; 365], content_pos: usize, m: usize) {
+/// the valid (constant) event text parsed into one concrete output length, arbitrary prior contents
+fn event_outlen_at(text: &[u8; 365], _content_pos: usize, m: usize) {
     let need = 144 + 26 + 4 + 3;
-    let mut t = [0u8; 365];
-    copy_text!(t, text);
-    let v: u8 = kani::any();
-    kani::assume(v >= 0x20 && v < 0x7f && v != b'"' && v != b'\\');
-    t[content_pos] = v;
     let mut out: [u8; 190] = kani::any();
-    let r = Event::from_json(&t, &mut out[..m]);
+    let r = Event::from_json(text, &mut out[..m]);
     match r {
         Ok((consumed, ev)) => {
             assert!(m >= need);
-            assert!(consumed == t.len());
+            assert!(consumed == text.len());
             assert!(ev.len() == need);
-            assert!(ev.content()[0] == v);
+            assert!(ev.content()[0] == b'h');
             walk_event(ev);
         }
         Err(e) => {
@@ -541,7 +530,7 @@ fn event_outlen_at(text: &[u8; 365], content_pos: usize, m: usize) {
 //@ timeout: 1500
 //@ mem: 14
 //@ covers: none
-//@ unwindset: read_sig=66; read_id=34; read_pubkey=34; read_hex=66; memcmp.0=34; event_outlen_at=400; event_prefix_at=400; read_u64=22; read_kind=8; burn_string=12; eat_whitespace=6; json_unescape=8
+//@ unwindset: read_sig=66; read_id=34; read_pubkey=34; read_hex=66; memcmp.0=34; event_outlen_at=400; event_prefix_at=400; read_u64=22; read_kind=8; burn_string=12; eat_whitespace=6; json_unescape=8; memchr=12; parse_json_event=10
 //@ encodes: Event::from_json, parse_json_event, read_tags_array, read_tag, read_content, read_sig, read_id, read_pubkey, json_unescape, put
 //@ bounds: a valid 365-byte event text (tags [["e","ab"],["p"],[]], content "hi\n" with its first byte arbitrary; member order 1: tags before content, sig last) parsed into an output buffer of exactly 0 bytes (needs 177) with arbitrary prior contents: no panic; error below the needed size, success with the right content from it
 //@ outside: output lengths that are not an instance of this family; a symbolic output length (forks every bounds test: > 40 min in the probe); one parse per harness (two exceed 14 GB)
@@ -558,7 +547,7 @@ fn c03_event_outlen_o1_0() {
 //@ timeout: 1500
 //@ mem: 14
 //@ covers: none
-//@ unwindset: read_sig=66; read_id=34; read_pubkey=34; read_hex=66; memcmp.0=34; event_outlen_at=400; event_prefix_at=400; read_u64=22; read_kind=8; burn_string=12; eat_whitespace=6; json_unescape=8
+//@ unwindset: read_sig=66; read_id=34; read_pubkey=34; read_hex=66; memcmp.0=34; event_outlen_at=400; event_prefix_at=400; read_u64=22; read_kind=8; burn_string=12; eat_whitespace=6; json_unescape=8; memchr=12; parse_json_event=10
 //@ encodes: Event::from_json, parse_json_event, read_tags_array, read_tag, read_content, read_sig, read_id, read_pubkey, json_unescape, put
 //@ bounds: a valid 365-byte event text (tags [["e","ab"],["p"],[]], content "hi\n" with its first byte arbitrary; member order 1: tags before content, sig last) parsed into an output buffer of exactly 143 bytes (needs 177) with arbitrary prior contents: no panic; error below the needed size, success with the right content from it
 //@ outside: output lengths that are not an instance of this family; a symbolic output length (forks every bounds test: > 40 min in the probe); one parse per harness (two exceed 14 GB)
@@ -575,7 +564,7 @@ fn c03_event_outlen_o1_143() {
 //@ timeout: 1500
 //@ mem: 14
 //@ covers: none
-//@ unwindset: read_sig=66; read_id=34; read_pubkey=34; read_hex=66; memcmp.0=34; event_outlen_at=400; event_prefix_at=400; read_u64=22; read_kind=8; burn_string=12; eat_whitespace=6; json_unescape=8
+//@ unwindset: read_sig=66; read_id=34; read_pubkey=34; read_hex=66; memcmp.0=34; event_outlen_at=400; event_prefix_at=400; read_u64=22; read_kind=8; burn_string=12; eat_whitespace=6; json_unescape=8; memchr=12; parse_json_event=10
 //@ encodes: Event::from_json, parse_json_event, read_tags_array, read_tag, read_content, read_sig, read_id, read_pubkey, json_unescape, put
 //@ bounds: a valid 365-byte event text (tags [["e","ab"],["p"],[]], content "hi\n" with its first byte arbitrary; member order 1: tags before content, sig last) parsed into an output buffer of exactly 151 bytes (needs 177) with arbitrary prior contents: no panic; error below the needed size, success with the right content from it
 //@ outside: output lengths that are not an instance of this family; a symbolic output length (forks every bounds test: > 40 min in the probe); one parse per harness (two exceed 14 GB)
@@ -592,7 +581,7 @@ fn c03_event_outlen_o1_151() {
 //@ timeout: 1500
 //@ mem: 14
 //@ covers: none
-//@ unwindset: read_sig=66; read_id=34; read_pubkey=34; read_hex=66; memcmp.0=34; event_outlen_at=400; event_prefix_at=400; read_u64=22; read_kind=8; burn_string=12; eat_whitespace=6; json_unescape=8
+//@ unwindset: read_sig=66; read_id=34; read_pubkey=34; read_hex=66; memcmp.0=34; event_outlen_at=400; event_prefix_at=400; read_u64=22; read_kind=8; burn_string=12; eat_whitespace=6; json_unescape=8; memchr=12; parse_json_event=10
 //@ encodes: Event::from_json, parse_json_event, read_tags_array, read_tag, read_content, read_sig, read_id, read_pubkey, json_unescape, put
 //@ bounds: a valid 365-byte event text (tags [["e","ab"],["p"],[]], content "hi\n" with its first byte arbitrary; member order 1: tags before content, sig last) parsed into an output buffer of exactly 152 bytes (needs 177) with arbitrary prior contents: no panic; error below the needed size, success with the right content from it
 //@ outside: output lengths that are not an instance of this family; a symbolic output length (forks every bounds test: > 40 min in the probe); one parse per harness (two exceed 14 GB)
@@ -609,7 +598,7 @@ fn c03_event_outlen_o1_152() {
 //@ timeout: 1500
 //@ mem: 14
 //@ covers: none
-//@ unwindset: read_sig=66; read_id=34; read_pubkey=34; read_hex=66; memcmp.0=34; event_outlen_at=400; event_prefix_at=400; read_u64=22; read_kind=8; burn_string=12; eat_whitespace=6; json_unescape=8
+//@ unwindset: read_sig=66; read_id=34; read_pubkey=34; read_hex=66; memcmp.0=34; event_outlen_at=400; event_prefix_at=400; read_u64=22; read_kind=8; burn_string=12; eat_whitespace=6; json_unescape=8; memchr=12; parse_json_event=10
 //@ encodes: Event::from_json, parse_json_event, read_tags_array, read_tag, read_content, read_sig, read_id, read_pubkey, json_unescape, put
 //@ bounds: a valid 365-byte event text (tags [["e","ab"],["p"],[]], content "hi\n" with its first byte arbitrary; member order 1: tags before content, sig last) parsed into an output buffer of exactly 153 bytes (needs 177) with arbitrary prior contents: no panic; error below the needed size, success with the right content from it
 //@ outside: output lengths that are not an instance of this family; a symbolic output length (forks every bounds test: > 40 min in the probe); one parse per harness (two exceed 14 GB)
@@ -626,7 +615,7 @@ fn c03_event_outlen_o1_153() {
 //@ timeout: 1500
 //@ mem: 14
 //@ covers: none
-//@ unwindset: read_sig=66; read_id=34; read_pubkey=34; read_hex=66; memcmp.0=34; event_outlen_at=400; event_prefix_at=400; read_u64=22; read_kind=8; burn_string=12; eat_whitespace=6; json_unescape=8
+//@ unwindset: read_sig=66; read_id=34; read_pubkey=34; read_hex=66; memcmp.0=34; event_outlen_at=400; event_prefix_at=400; read_u64=22; read_kind=8; burn_string=12; eat_whitespace=6; json_unescape=8; memchr=12; parse_json_event=10
 //@ encodes: Event::from_json, parse_json_event, read_tags_array, read_tag, read_content, read_sig, read_id, read_pubkey, json_unescape, put
 //@ bounds: a valid 365-byte event text (tags [["e","ab"],["p"],[]], content "hi\n" with its first byte arbitrary; member order 1: tags before content, sig last) parsed into an output buffer of exactly 158 bytes (needs 177) with arbitrary prior contents: no panic; error below the needed size, success with the right content from it
 //@ outside: output lengths that are not an instance of this family; a symbolic output length (forks every bounds test: > 40 min in the probe); one parse per harness (two exceed 14 GB)
@@ -643,7 +632,7 @@ fn c03_event_outlen_o1_158() {
 //@ timeout: 1500
 //@ mem: 14
 //@ covers: none
-//@ unwindset: read_sig=66; read_id=34; read_pubkey=34; read_hex=66; memcmp.0=34; event_outlen_at=400; event_prefix_at=400; read_u64=22; read_kind=8; burn_string=12; eat_whitespace=6; json_unescape=8
+//@ unwindset: read_sig=66; read_id=34; read_pubkey=34; read_hex=66; memcmp.0=34; event_outlen_at=400; event_prefix_at=400; read_u64=22; read_kind=8; burn_string=12; eat_whitespace=6; json_unescape=8; memchr=12; parse_json_event=10
 //@ encodes: Event::from_json, parse_json_event, read_tags_array, read_tag, read_content, read_sig, read_id, read_pubkey, json_unescape, put
 //@ bounds: a valid 365-byte event text (tags [["e","ab"],["p"],[]], content "hi\n" with its first byte arbitrary; member order 1: tags before content, sig last) parsed into an output buffer of exactly 163 bytes (needs 177) with arbitrary prior contents: no panic; error below the needed size, success with the right content from it
 //@ outside: output lengths that are not an instance of this family; a symbolic output length (forks every bounds test: > 40 min in the probe); one parse per harness (two exceed 14 GB)
@@ -660,7 +649,7 @@ fn c03_event_outlen_o1_163() {
 //@ timeout: 1500
 //@ mem: 14
 //@ covers: none
-//@ unwindset: read_sig=66; read_id=34; read_pubkey=34; read_hex=66; memcmp.0=34; event_outlen_at=400; event_prefix_at=400; read_u64=22; read_kind=8; burn_string=12; eat_whitespace=6; json_unescape=8
+//@ unwindset: read_sig=66; read_id=34; read_pubkey=34; read_hex=66; memcmp.0=34; event_outlen_at=400; event_prefix_at=400; read_u64=22; read_kind=8; burn_string=12; eat_whitespace=6; json_unescape=8; memchr=12; parse_json_event=10
 //@ encodes: Event::from_json, parse_json_event, read_tags_array, read_tag, read_content, read_sig, read_id, read_pubkey, json_unescape, put
 //@ bounds: a valid 365-byte event text (tags [["e","ab"],["p"],[]], content "hi\n" with its first byte arbitrary; member order 1: tags before content, sig last) parsed into an output buffer of exactly 170 bytes (needs 177) with arbitrary prior contents: no panic; error below the needed size, success with the right content from it
 //@ outside: output lengths that are not an instance of this family; a symbolic output length (forks every bounds test: > 40 min in the probe); one parse per harness (two exceed 14 GB)
@@ -677,7 +666,7 @@ fn c03_event_outlen_o1_170() {
 //@ timeout: 1500
 //@ mem: 14
 //@ covers: none
-//@ unwindset: read_sig=66; read_id=34; read_pubkey=34; read_hex=66; memcmp.0=34; event_outlen_at=400; event_prefix_at=400; read_u64=22; read_kind=8; burn_string=12; eat_whitespace=6; json_unescape=8
+//@ unwindset: read_sig=66; read_id=34; read_pubkey=34; read_hex=66; memcmp.0=34; event_outlen_at=400; event_prefix_at=400; read_u64=22; read_kind=8; burn_string=12; eat_whitespace=6; json_unescape=8; memchr=12; parse_json_event=10
 //@ encodes: Event::from_json, parse_json_event, read_tags_array, read_tag, read_content, read_sig, read_id, read_pubkey, json_unescape, put
 //@ bounds: a valid 365-byte event text (tags [["e","ab"],["p"],[]], content "hi\n" with its first byte arbitrary; member order 1: tags before content, sig last) parsed into an output buffer of exactly 171 bytes (needs 177) with arbitrary prior contents: no panic; error below the needed size, success with the right content from it
 //@ outside: output lengths that are not an instance of this family; a symbolic output length (forks every bounds test: > 40 min in the probe); one parse per harness (two exceed 14 GB)
@@ -694,7 +683,7 @@ fn c03_event_outlen_o1_171() {
 //@ timeout: 1500
 //@ mem: 14
 //@ covers: none
-//@ unwindset: read_sig=66; read_id=34; read_pubkey=34; read_hex=66; memcmp.0=34; event_outlen_at=400; event_prefix_at=400; read_u64=22; read_kind=8; burn_string=12; eat_whitespace=6; json_unescape=8
+//@ unwindset: read_sig=66; read_id=34; read_pubkey=34; read_hex=66; memcmp.0=34; event_outlen_at=400; event_prefix_at=400; read_u64=22; read_kind=8; burn_string=12; eat_whitespace=6; json_unescape=8; memchr=12; parse_json_event=10
 //@ encodes: Event::from_json, parse_json_event, read_tags_array, read_tag, read_content, read_sig, read_id, read_pubkey, json_unescape, put
 //@ bounds: a valid 365-byte event text (tags [["e","ab"],["p"],[]], content "hi\n" with its first byte arbitrary; member order 1: tags before content, sig last) parsed into an output buffer of exactly 173 bytes (needs 177) with arbitrary prior contents: no panic; error below the needed size, success with the right content from it
 //@ outside: output lengths that are not an instance of this family; a symbolic output length (forks every bounds test: > 40 min in the probe); one parse per harness (two exceed 14 GB)
@@ -711,7 +700,7 @@ fn c03_event_outlen_o1_173() {
 //@ timeout: 1500
 //@ mem: 14
 //@ covers: none
-//@ unwindset: read_sig=66; read_id=34; read_pubkey=34; read_hex=66; memcmp.0=34; event_outlen_at=400; event_prefix_at=400; read_u64=22; read_kind=8; burn_string=12; eat_whitespace=6; json_unescape=8
+//@ unwindset: read_sig=66; read_id=34; read_pubkey=34; read_hex=66; memcmp.0=34; event_outlen_at=400; event_prefix_at=400; read_u64=22; read_kind=8; burn_string=12; eat_whitespace=6; json_unescape=8; memchr=12; parse_json_event=10
 //@ encodes: Event::from_json, parse_json_event, read_tags_array, read_tag, read_content, read_sig, read_id, read_pubkey, json_unescape, put
 //@ bounds: a valid 365-byte event text (tags [["e","ab"],["p"],[]], content "hi\n" with its first byte arbitrary; member order 1: tags before content, sig last) parsed into an output buffer of exactly 175 bytes (needs 177) with arbitrary prior contents: no panic; error below the needed size, success with the right content from it
 //@ outside: output lengths that are not an instance of this family; a symbolic output length (forks every bounds test: > 40 min in the probe); one parse per harness (two exceed 14 GB)
@@ -727,7 +716,7 @@ fn c03_event_outlen_o1_175() {
 //@ timeout: 1500
 //@ mem: 14
 //@ covers: none
-//@ unwindset: read_sig=66; read_id=34; read_pubkey=34; read_hex=66; memcmp.0=34; event_outlen_at=400; event_prefix_at=400; read_u64=22; read_kind=8; burn_string=12; eat_whitespace=6; json_unescape=8
+//@ unwindset: read_sig=66; read_id=34; read_pubkey=34; read_hex=66; memcmp.0=34; event_outlen_at=400; event_prefix_at=400; read_u64=22; read_kind=8; burn_string=12; eat_whitespace=6; json_unescape=8; memchr=12; parse_json_event=10
 //@ encodes: Event::from_json, parse_json_event, read_tags_array, read_tag, read_content, read_sig, read_id, read_pubkey, json_unescape, put
 //@ bounds: a valid 365-byte event text (tags [["e","ab"],["p"],[]], content "hi\n" with its first byte arbitrary; member order 1: tags before content, sig last) parsed into an output buffer of exactly 176 bytes (needs 177) with arbitrary prior contents: no panic; error below the needed size, success with the right content from it
 //@ outside: output lengths that are not an instance of this family; a symbolic output length (forks every bounds test: > 40 min in the probe); one parse per harness (two exceed 14 GB)
@@ -744,7 +733,7 @@ fn c03_event_outlen_o1_176() {
 //@ timeout: 1500
 //@ mem: 14
 //@ covers: none
-//@ unwindset: read_sig=66; read_id=34; read_pubkey=34; read_hex=66; memcmp.0=34; event_outlen_at=400; event_prefix_at=400; read_u64=22; read_kind=8; burn_string=12; eat_whitespace=6; json_unescape=8
+//@ unwindset: read_sig=66; read_id=34; read_pubkey=34; read_hex=66; memcmp.0=34; event_outlen_at=400; event_prefix_at=400; read_u64=22; read_kind=8; burn_string=12; eat_whitespace=6; json_unescape=8; memchr=12; parse_json_event=10
 //@ encodes: Event::from_json, parse_json_event, read_tags_array, read_tag, read_content, read_sig, read_id, read_pubkey, json_unescape, put
 //@ bounds: a valid 365-byte event text (tags [["e","ab"],["p"],[]], content "hi\n" with its first byte arbitrary; member order 1: tags before content, sig last) parsed into an output buffer of exactly 177 bytes (needs 177) with arbitrary prior contents: no panic; error below the needed size, success with the right content from it
 //@ outside: output lengths that are not an instance of this family; a symbolic output length (forks every bounds test: > 40 min in the probe); one parse per harness (two exceed 14 GB)
@@ -761,7 +750,7 @@ fn c03_event_outlen_o1_177() {
 //@ timeout: 1500
 //@ mem: 14
 //@ covers: none
-//@ unwindset: read_sig=66; read_id=34; read_pubkey=34; read_hex=66; memcmp.0=34; event_outlen_at=400; event_prefix_at=400; read_u64=22; read_kind=8; burn_string=12; eat_whitespace=6; json_unescape=8
+//@ unwindset: read_sig=66; read_id=34; read_pubkey=34; read_hex=66; memcmp.0=34; event_outlen_at=400; event_prefix_at=400; read_u64=22; read_kind=8; burn_string=12; eat_whitespace=6; json_unescape=8; memchr=12; parse_json_event=10
 //@ encodes: Event::from_json, parse_json_event, read_tags_array, read_tag, read_content, read_sig, read_id, read_pubkey, json_unescape, put
 //@ bounds: a valid 365-byte event text (tags [["e","ab"],["p"],[]], content "hi\n" with its first byte arbitrary; member order 1: tags before content, sig last) parsed into an output buffer of exactly 178 bytes (needs 177) with arbitrary prior contents: no panic; error below the needed size, success with the right content from it
 //@ outside: output lengths that are not an instance of this family; a symbolic output length (forks every bounds test: > 40 min in the probe); one parse per harness (two exceed 14 GB)
@@ -778,7 +767,7 @@ fn c03_event_outlen_o1_178() {
 //@ timeout: 1500
 //@ mem: 14
 //@ covers: none
-//@ unwindset: read_sig=66; read_id=34; read_pubkey=34; read_hex=66; memcmp.0=34; event_outlen_at=400; event_prefix_at=400; read_u64=22; read_kind=8; burn_string=12; eat_whitespace=6; json_unescape=8
+//@ unwindset: read_sig=66; read_id=34; read_pubkey=34; read_hex=66; memcmp.0=34; event_outlen_at=400; event_prefix_at=400; read_u64=22; read_kind=8; burn_string=12; eat_whitespace=6; json_unescape=8; memchr=12; parse_json_event=10
 //@ encodes: Event::from_json, parse_json_event, read_tags_array, read_tag, read_content, read_sig, read_id, read_pubkey, json_unescape, put
 //@ bounds: a valid 365-byte event text (tags [["e","ab"],["p"],[]], content "hi\n" with its first byte arbitrary; member order 2: content before tags - deferred content -, id last) parsed into an output buffer of exactly 0 bytes (needs 177) with arbitrary prior contents: no panic; error below the needed size, success with the right content from it
 //@ outside: output lengths that are not an instance of this family; a symbolic output length (forks every bounds test: > 40 min in the probe); one parse per harness (two exceed 14 GB)
@@ -795,7 +784,7 @@ fn c03_event_outlen_o2_0() {
 //@ timeout: 1500
 //@ mem: 14
 //@ covers: none
-//@ unwindset: read_sig=66; read_id=34; read_pubkey=34; read_hex=66; memcmp.0=34; event_outlen_at=400; event_prefix_at=400; read_u64=22; read_kind=8; burn_string=12; eat_whitespace=6; json_unescape=8
+//@ unwindset: read_sig=66; read_id=34; read_pubkey=34; read_hex=66; memcmp.0=34; event_outlen_at=400; event_prefix_at=400; read_u64=22; read_kind=8; burn_string=12; eat_whitespace=6; json_unescape=8; memchr=12; parse_json_event=10
 //@ encodes: Event::from_json, parse_json_event, read_tags_array, read_tag, read_content, read_sig, read_id, read_pubkey, json_unescape, put
 //@ bounds: a valid 365-byte event text (tags [["e","ab"],["p"],[]], content "hi\n" with its first byte arbitrary; member order 2: content before tags - deferred content -, id last) parsed into an output buffer of exactly 143 bytes (needs 177) with arbitrary prior contents: no panic; error below the needed size, success with the right content from it
 //@ outside: output lengths that are not an instance of this family; a symbolic output length (forks every bounds test: > 40 min in the probe); one parse per harness (two exceed 14 GB)
@@ -812,7 +801,7 @@ fn c03_event_outlen_o2_143() {
 //@ timeout: 1500
 //@ mem: 14
 //@ covers: none
-//@ unwindset: read_sig=66; read_id=34; read_pubkey=34; read_hex=66; memcmp.0=34; event_outlen_at=400; event_prefix_at=400; read_u64=22; read_kind=8; burn_string=12; eat_whitespace=6; json_unescape=8
+//@ unwindset: read_sig=66; read_id=34; read_pubkey=34; read_hex=66; memcmp.0=34; event_outlen_at=400; event_prefix_at=400; read_u64=22; read_kind=8; burn_string=12; eat_whitespace=6; json_unescape=8; memchr=12; parse_json_event=10
 //@ encodes: Event::from_json, parse_json_event, read_tags_array, read_tag, read_content, read_sig, read_id, read_pubkey, json_unescape, put
 //@ bounds: a valid 365-byte event text (tags [["e","ab"],["p"],[]], content "hi\n" with its first byte arbitrary; member order 2: content before tags - deferred content -, id last) parsed into an output buffer of exactly 151 bytes (needs 177) with arbitrary prior contents: no panic; error below the needed size, success with the right content from it
 //@ outside: output lengths that are not an instance of this family; a symbolic output length (forks every bounds test: > 40 min in the probe); one parse per harness (two exceed 14 GB)
@@ -829,7 +818,7 @@ fn c03_event_outlen_o2_151() {
 //@ timeout: 1500
 //@ mem: 14
 //@ covers: none
-//@ unwindset: read_sig=66; read_id=34; read_pubkey=34; read_hex=66; memcmp.0=34; event_outlen_at=400; event_prefix_at=400; read_u64=22; read_kind=8; burn_string=12; eat_whitespace=6; json_unescape=8
+//@ unwindset: read_sig=66; read_id=34; read_pubkey=34; read_hex=66; memcmp.0=34; event_outlen_at=400; event_prefix_at=400; read_u64=22; read_kind=8; burn_string=12; eat_whitespace=6; json_unescape=8; memchr=12; parse_json_event=10
 //@ encodes: Event::from_json, parse_json_event, read_tags_array, read_tag, read_content, read_sig, read_id, read_pubkey, json_unescape, put
 //@ bounds: a valid 365-byte event text (tags [["e","ab"],["p"],[]], content "hi\n" with its first byte arbitrary; member order 2: content before tags - deferred content -, id last) parsed into an output buffer of exactly 152 bytes (needs 177) with arbitrary prior contents: no panic; error below the needed size, success with the right content from it
 //@ outside: output lengths that are not an instance of this family; a symbolic output length (forks every bounds test: > 40 min in the probe); one parse per harness (two exceed 14 GB)
@@ -846,7 +835,7 @@ fn c03_event_outlen_o2_152() {
 //@ timeout: 1500
 //@ mem: 14
 //@ covers: none
-//@ unwindset: read_sig=66; read_id=34; read_pubkey=34; read_hex=66; memcmp.0=34; event_outlen_at=400; event_prefix_at=400; read_u64=22; read_kind=8; burn_string=12; eat_whitespace=6; json_unescape=8
+//@ unwindset: read_sig=66; read_id=34; read_pubkey=34; read_hex=66; memcmp.0=34; event_outlen_at=400; event_prefix_at=400; read_u64=22; read_kind=8; burn_string=12; eat_whitespace=6; json_unescape=8; memchr=12; parse_json_event=10
 //@ encodes: Event::from_json, parse_json_event, read_tags_array, read_tag, read_content, read_sig, read_id, read_pubkey, json_unescape, put
 //@ bounds: a valid 365-byte event text (tags [["e","ab"],["p"],[]], content "hi\n" with its first byte arbitrary; member order 2: content before tags - deferred content -, id last) parsed into an output buffer of exactly 153 bytes (needs 177) with arbitrary prior contents: no panic; error below the needed size, success with the right content from it
 //@ outside: output lengths that are not an instance of this family; a symbolic output length (forks every bounds test: > 40 min in the probe); one parse per harness (two exceed 14 GB)
@@ -863,7 +852,7 @@ fn c03_event_outlen_o2_153() {
 //@ timeout: 1500
 //@ mem: 14
 //@ covers: none
-//@ unwindset: read_sig=66; read_id=34; read_pubkey=34; read_hex=66; memcmp.0=34; event_outlen_at=400; event_prefix_at=400; read_u64=22; read_kind=8; burn_string=12; eat_whitespace=6; json_unescape=8
+//@ unwindset: read_sig=66; read_id=34; read_pubkey=34; read_hex=66; memcmp.0=34; event_outlen_at=400; event_prefix_at=400; read_u64=22; read_kind=8; burn_string=12; eat_whitespace=6; json_unescape=8; memchr=12; parse_json_event=10
 //@ encodes: Event::from_json, parse_json_event, read_tags_array, read_tag, read_content, read_sig, read_id, read_pubkey, json_unescape, put
 //@ bounds: a valid 365-byte event text (tags [["e","ab"],["p"],[]], content "hi\n" with its first byte arbitrary; member order 2: content before tags - deferred content -, id last) parsed into an output buffer of exactly 158 bytes (needs 177) with arbitrary prior contents: no panic; error below the needed size, success with the right content from it
 //@ outside: output lengths that are not an instance of this family; a symbolic output length (forks every bounds test: > 40 min in the probe); one parse per harness (two exceed 14 GB)
@@ -880,7 +869,7 @@ fn c03_event_outlen_o2_158() {
 //@ timeout: 1500
 //@ mem: 14
 //@ covers: none
-//@ unwindset: read_sig=66; read_id=34; read_pubkey=34; read_hex=66; memcmp.0=34; event_outlen_at=400; event_prefix_at=400; read_u64=22; read_kind=8; burn_string=12; eat_whitespace=6; json_unescape=8
+//@ unwindset: read_sig=66; read_id=34; read_pubkey=34; read_hex=66; memcmp.0=34; event_outlen_at=400; event_prefix_at=400; read_u64=22; read_kind=8; burn_string=12; eat_whitespace=6; json_unescape=8; memchr=12; parse_json_event=10
 //@ encodes: Event::from_json, parse_json_event, read_tags_array, read_tag, read_content, read_sig, read_id, read_pubkey, json_unescape, put
 //@ bounds: a valid 365-byte event text (tags [["e","ab"],["p"],[]], content "hi\n" with its first byte arbitrary; member order 2: content before tags - deferred content -, id last) parsed into an output buffer of exactly 163 bytes (needs 177) with arbitrary prior contents: no panic; error below the needed size, success with the right content from it
 //@ outside: output lengths that are not an instance of this family; a symbolic output length (forks every bounds test: > 40 min in the probe); one parse per harness (two exceed 14 GB)
@@ -897,7 +886,7 @@ fn c03_event_outlen_o2_163() {
 //@ timeout: 1500
 //@ mem: 14
 //@ covers: none
-//@ unwindset: read_sig=66; read_id=34; read_pubkey=34; read_hex=66; memcmp.0=34; event_outlen_at=400; event_prefix_at=400; read_u64=22; read_kind=8; burn_string=12; eat_whitespace=6; json_unescape=8
+//@ unwindset: read_sig=66; read_id=34; read_pubkey=34; read_hex=66; memcmp.0=34; event_outlen_at=400; event_prefix_at=400; read_u64=22; read_kind=8; burn_string=12; eat_whitespace=6; json_unescape=8; memchr=12; parse_json_event=10
 //@ encodes: Event::from_json, parse_json_event, read_tags_array, read_tag, read_content, read_sig, read_id, read_pubkey, json_unescape, put
 //@ bounds: a valid 365-byte event text (tags [["e","ab"],["p"],[]], content "hi\n" with its first byte arbitrary; member order 2: content before tags - deferred content -, id last) parsed into an output buffer of exactly 170 bytes (needs 177) with arbitrary prior contents: no panic; error below the needed size, success with the right content from it
 //@ outside: output lengths that are not an instance of this family; a symbolic output length (forks every bounds test: > 40 min in the probe); one parse per harness (two exceed 14 GB)
@@ -914,7 +903,7 @@ fn c03_event_outlen_o2_170() {
 //@ timeout: 1500
 //@ mem: 14
 //@ covers: none
-//@ unwindset: read_sig=66; read_id=34; read_pubkey=34; read_hex=66; memcmp.0=34; event_outlen_at=400; event_prefix_at=400; read_u64=22; read_kind=8; burn_string=12; eat_whitespace=6; json_unescape=8
+//@ unwindset: read_sig=66; read_id=34; read_pubkey=34; read_hex=66; memcmp.0=34; event_outlen_at=400; event_prefix_at=400; read_u64=22; read_kind=8; burn_string=12; eat_whitespace=6; json_unescape=8; memchr=12; parse_json_event=10
 //@ encodes: Event::from_json, parse_json_event, read_tags_array, read_tag, read_content, read_sig, read_id, read_pubkey, json_unescape, put
 //@ bounds: a valid 365-byte event text (tags [["e","ab"],["p"],[]], content "hi\n" with its first byte arbitrary; member order 2: content before tags - deferred content -, id last) parsed into an output buffer of exactly 171 bytes (needs 177) with arbitrary prior contents: no panic; error below the needed size, success with the right content from it
 //@ outside: output lengths that are not an instance of this family; a symbolic output length (forks every bounds test: > 40 min in the probe); one parse per harness (two exceed 14 GB)
@@ -931,7 +920,7 @@ fn c03_event_outlen_o2_171() {
 //@ timeout: 1500
 //@ mem: 14
 //@ covers: none
-//@ unwindset: read_sig=66; read_id=34; read_pubkey=34; read_hex=66; memcmp.0=34; event_outlen_at=400; event_prefix_at=400; read_u64=22; read_kind=8; burn_string=12; eat_whitespace=6; json_unescape=8
+//@ unwindset: read_sig=66; read_id=34; read_pubkey=34; read_hex=66; memcmp.0=34; event_outlen_at=400; event_prefix_at=400; read_u64=22; read_kind=8; burn_string=12; eat_whitespace=6; json_unescape=8; memchr=12; parse_json_event=10
 //@ encodes: Event::from_json, parse_json_event, read_tags_array, read_tag, read_content, read_sig, read_id, read_pubkey, json_unescape, put
 //@ bounds: a valid 365-byte event text (tags [["e","ab"],["p"],[]], content "hi\n" with its first byte arbitrary; member order 2: content before tags - deferred content -, id last) parsed into an output buffer of exactly 173 bytes (needs 177) with arbitrary prior contents: no panic; error below the needed size, success with the right content from it
 //@ outside: output lengths that are not an instance of this family; a symbolic output length (forks every bounds test: > 40 min in the probe); one parse per harness (two exceed 14 GB)
@@ -948,7 +937,7 @@ fn c03_event_outlen_o2_173() {
 //@ timeout: 1500
 //@ mem: 14
 //@ covers: none
-//@ unwindset: read_sig=66; read_id=34; read_pubkey=34; read_hex=66; memcmp.0=34; event_outlen_at=400; event_prefix_at=400; read_u64=22; read_kind=8; burn_string=12; eat_whitespace=6; json_unescape=8
+//@ unwindset: read_sig=66; read_id=34; read_pubkey=34; read_hex=66; memcmp.0=34; event_outlen_at=400; event_prefix_at=400; read_u64=22; read_kind=8; burn_string=12; eat_whitespace=6; json_unescape=8; memchr=12; parse_json_event=10
 //@ encodes: Event::from_json, parse_json_event, read_tags_array, read_tag, read_content, read_sig, read_id, read_pubkey, json_unescape, put
 //@ bounds: a valid 365-byte event text (tags [["e","ab"],["p"],[]], content "hi\n" with its first byte arbitrary; member order 2: content before tags - deferred content -, id last) parsed into an output buffer of exactly 175 bytes (needs 177) with arbitrary prior contents: no panic; error below the needed size, success with the right content from it
 //@ outside: output lengths that are not an instance of this family; a symbolic output length (forks every bounds test: > 40 min in the probe); one parse per harness (two exceed 14 GB)
@@ -965,7 +954,7 @@ fn c03_event_outlen_o2_175() {
 //@ timeout: 1500
 //@ mem: 14
 //@ covers: none
-//@ unwindset: read_sig=66; read_id=34; read_pubkey=34; read_hex=66; memcmp.0=34; event_outlen_at=400; event_prefix_at=400; read_u64=22; read_kind=8; burn_string=12; eat_whitespace=6; json_unescape=8
+//@ unwindset: read_sig=66; read_id=34; read_pubkey=34; read_hex=66; memcmp.0=34; event_outlen_at=400; event_prefix_at=400; read_u64=22; read_kind=8; burn_string=12; eat_whitespace=6; json_unescape=8; memchr=12; parse_json_event=10
 //@ encodes: Event::from_json, parse_json_event, read_tags_array, read_tag, read_content, read_sig, read_id, read_pubkey, json_unescape, put
 //@ bounds: a valid 365-byte event text (tags [["e","ab"],["p"],[]], content "hi\n" with its first byte arbitrary; member order 2: content before tags - deferred content -, id last) parsed into an output buffer of exactly 176 bytes (needs 177) with arbitrary prior contents: no panic; error below the needed size, success with the right content from it
 //@ outside: output lengths that are not an instance of this family; a symbolic output length (forks every bounds test: > 40 min in the probe); one parse per harness (two exceed 14 GB)
@@ -981,7 +970,7 @@ fn c03_event_outlen_o2_176() {
 //@ timeout: 1500
 //@ mem: 14
 //@ covers: none
-//@ unwindset: read_sig=66; read_id=34; read_pubkey=34; read_hex=66; memcmp.0=34; event_outlen_at=400; event_prefix_at=400; read_u64=22; read_kind=8; burn_string=12; eat_whitespace=6; json_unescape=8
+//@ unwindset: read_sig=66; read_id=34; read_pubkey=34; read_hex=66; memcmp.0=34; event_outlen_at=400; event_prefix_at=400; read_u64=22; read_kind=8; burn_string=12; eat_whitespace=6; json_unescape=8; memchr=12; parse_json_event=10
 //@ encodes: Event::from_json, parse_json_event, read_tags_array, read_tag, read_content, read_sig, read_id, read_pubkey, json_unescape, put
 //@ bounds: a valid 365-byte event text (tags [["e","ab"],["p"],[]], content "hi\n" with its first byte arbitrary; member order 2: content before tags - deferred content -, id last) parsed into an output buffer of exactly 177 bytes (needs 177) with arbitrary prior contents: no panic; error below the needed size, success with the right content from it
 //@ outside: output lengths that are not an instance of this family; a symbolic output length (forks every bounds test: > 40 min in the probe); one parse per harness (two exceed 14 GB)
@@ -998,7 +987,7 @@ fn c03_event_outlen_o2_177() {
 //@ timeout: 1500
 //@ mem: 14
 //@ covers: none
-//@ unwindset: read_sig=66; read_id=34; read_pubkey=34; read_hex=66; memcmp.0=34; event_outlen_at=400; event_prefix_at=400; read_u64=22; read_kind=8; burn_string=12; eat_whitespace=6; json_unescape=8
+//@ unwindset: read_sig=66; read_id=34; read_pubkey=34; read_hex=66; memcmp.0=34; event_outlen_at=400; event_prefix_at=400; read_u64=22; read_kind=8; burn_string=12; eat_whitespace=6; json_unescape=8; memchr=12; parse_json_event=10
 //@ encodes: Event::from_json, parse_json_event, read_tags_array, read_tag, read_content, read_sig, read_id, read_pubkey, json_unescape, put
 //@ bounds: a valid 365-byte event text (tags [["e","ab"],["p"],[]], content "hi\n" with its first byte arbitrary; member order 2: content before tags - deferred content -, id last) parsed into an output buffer of exactly 178 bytes (needs 177) with arbitrary prior contents: no panic; error below the needed size, success with the right content from it
 //@ outside: output lengths that are not an instance of this family; a symbolic output length (forks every bounds test: > 40 min in the probe); one parse per harness (two exceed 14 GB)
@@ -1009,13 +998,10 @@ fn c03_event_outlen_o2_178() {
     event_outlen_at(EV_T1_O2, EV_T1_O2_CPOS, 178);
 }
 
-/// the valid event text cut at concrete lengths, last byte of each prefix arbitrary
+/// the valid (constant) event text cut after n bytes, arbitrary prior contents of the output buffer
 fn event_prefix_at(text: &[u8; 365], n: usize) {
-    let mut buf = [0u8; 365];
-    copy_text!(buf, text);
-    buf[n - 1] = kani::any();
-    let mut out = [0u8; 192];
-    let r = Event::from_json(&buf[..n], &mut out);
+    let mut out: [u8; 192] = kani::any();
+    let r = Event::from_json(&text[..n], &mut out);
     match r {
         Ok((consumed, ev)) => {
             assert!(consumed <= n);
@@ -1031,9 +1017,9 @@ fn event_prefix_at(text: &[u8; 365], n: usize) {
 //@ timeout: 1500
 //@ mem: 14
 //@ covers: none
-//@ unwindset: read_sig=66; read_id=34; read_pubkey=34; read_hex=66; memcmp.0=34; event_outlen_at=400; event_prefix_at=400; read_u64=22; read_kind=8; burn_string=12; eat_whitespace=6; json_unescape=8
+//@ unwindset: read_sig=66; read_id=34; read_pubkey=34; read_hex=66; memcmp.0=34; event_outlen_at=400; event_prefix_at=400; read_u64=22; read_kind=8; burn_string=12; eat_whitespace=6; json_unescape=8; memchr=12; parse_json_event=10
 //@ encodes: Event::from_json, parse_json_event and every reader it calls
-//@ bounds: the valid 365-byte event text (order 1) cut after 204 bytes, the last byte of the prefix arbitrary (truncation and single-byte corruption at the cut): no panic, consumed <= length
+//@ bounds: the valid 365-byte event text (order 1) cut after 204 bytes (pure truncation), arbitrary prior output buffer: no panic, consumed <= length
 //@ outside: prefix lengths that are not an instance of this family (inputs shorter than 204 bytes are rejected up front)
 #[kani::proof]
 #[kani::unwind(8)]
@@ -1048,9 +1034,9 @@ fn c03_event_prefix_o1_204() {
 //@ timeout: 1500
 //@ mem: 14
 //@ covers: none
-//@ unwindset: read_sig=66; read_id=34; read_pubkey=34; read_hex=66; memcmp.0=34; event_outlen_at=400; event_prefix_at=400; read_u64=22; read_kind=8; burn_string=12; eat_whitespace=6; json_unescape=8
+//@ unwindset: read_sig=66; read_id=34; read_pubkey=34; read_hex=66; memcmp.0=34; event_outlen_at=400; event_prefix_at=400; read_u64=22; read_kind=8; burn_string=12; eat_whitespace=6; json_unescape=8; memchr=12; parse_json_event=10
 //@ encodes: Event::from_json, parse_json_event and every reader it calls
-//@ bounds: the valid 365-byte event text (order 1) cut after 205 bytes, the last byte of the prefix arbitrary (truncation and single-byte corruption at the cut): no panic, consumed <= length
+//@ bounds: the valid 365-byte event text (order 1) cut after 205 bytes (pure truncation), arbitrary prior output buffer: no panic, consumed <= length
 //@ outside: prefix lengths that are not an instance of this family (inputs shorter than 204 bytes are rejected up front)
 #[kani::proof]
 #[kani::unwind(8)]
@@ -1065,9 +1051,9 @@ fn c03_event_prefix_o1_205() {
 //@ timeout: 1500
 //@ mem: 14
 //@ covers: none
-//@ unwindset: read_sig=66; read_id=34; read_pubkey=34; read_hex=66; memcmp.0=34; event_outlen_at=400; event_prefix_at=400; read_u64=22; read_kind=8; burn_string=12; eat_whitespace=6; json_unescape=8
+//@ unwindset: read_sig=66; read_id=34; read_pubkey=34; read_hex=66; memcmp.0=34; event_outlen_at=400; event_prefix_at=400; read_u64=22; read_kind=8; burn_string=12; eat_whitespace=6; json_unescape=8; memchr=12; parse_json_event=10
 //@ encodes: Event::from_json, parse_json_event and every reader it calls
-//@ bounds: the valid 365-byte event text (order 1) cut after 210 bytes, the last byte of the prefix arbitrary (truncation and single-byte corruption at the cut): no panic, consumed <= length
+//@ bounds: the valid 365-byte event text (order 1) cut after 210 bytes (pure truncation), arbitrary prior output buffer: no panic, consumed <= length
 //@ outside: prefix lengths that are not an instance of this family (inputs shorter than 204 bytes are rejected up front)
 #[kani::proof]
 #[kani::unwind(8)]
@@ -1082,9 +1068,9 @@ fn c03_event_prefix_o1_210() {
 //@ timeout: 1500
 //@ mem: 14
 //@ covers: none
-//@ unwindset: read_sig=66; read_id=34; read_pubkey=34; read_hex=66; memcmp.0=34; event_outlen_at=400; event_prefix_at=400; read_u64=22; read_kind=8; burn_string=12; eat_whitespace=6; json_unescape=8
+//@ unwindset: read_sig=66; read_id=34; read_pubkey=34; read_hex=66; memcmp.0=34; event_outlen_at=400; event_prefix_at=400; read_u64=22; read_kind=8; burn_string=12; eat_whitespace=6; json_unescape=8; memchr=12; parse_json_event=10
 //@ encodes: Event::from_json, parse_json_event and every reader it calls
-//@ bounds: the valid 365-byte event text (order 1) cut after 222 bytes, the last byte of the prefix arbitrary (truncation and single-byte corruption at the cut): no panic, consumed <= length
+//@ bounds: the valid 365-byte event text (order 1) cut after 222 bytes (pure truncation), arbitrary prior output buffer: no panic, consumed <= length
 //@ outside: prefix lengths that are not an instance of this family (inputs shorter than 204 bytes are rejected up front)
 #[kani::proof]
 #[kani::unwind(8)]
@@ -1099,9 +1085,9 @@ fn c03_event_prefix_o1_222() {
 //@ timeout: 1500
 //@ mem: 14
 //@ covers: none
-//@ unwindset: read_sig=66; read_id=34; read_pubkey=34; read_hex=66; memcmp.0=34; event_outlen_at=400; event_prefix_at=400; read_u64=22; read_kind=8; burn_string=12; eat_whitespace=6; json_unescape=8
+//@ unwindset: read_sig=66; read_id=34; read_pubkey=34; read_hex=66; memcmp.0=34; event_outlen_at=400; event_prefix_at=400; read_u64=22; read_kind=8; burn_string=12; eat_whitespace=6; json_unescape=8; memchr=12; parse_json_event=10
 //@ encodes: Event::from_json, parse_json_event and every reader it calls
-//@ bounds: the valid 365-byte event text (order 1) cut after 226 bytes, the last byte of the prefix arbitrary (truncation and single-byte corruption at the cut): no panic, consumed <= length
+//@ bounds: the valid 365-byte event text (order 1) cut after 226 bytes (pure truncation), arbitrary prior output buffer: no panic, consumed <= length
 //@ outside: prefix lengths that are not an instance of this family (inputs shorter than 204 bytes are rejected up front)
 #[kani::proof]
 #[kani::unwind(8)]
@@ -1116,9 +1102,9 @@ fn c03_event_prefix_o1_226() {
 //@ timeout: 1500
 //@ mem: 14
 //@ covers: none
-//@ unwindset: read_sig=66; read_id=34; read_pubkey=34; read_hex=66; memcmp.0=34; event_outlen_at=400; event_prefix_at=400; read_u64=22; read_kind=8; burn_string=12; eat_whitespace=6; json_unescape=8
+//@ unwindset: read_sig=66; read_id=34; read_pubkey=34; read_hex=66; memcmp.0=34; event_outlen_at=400; event_prefix_at=400; read_u64=22; read_kind=8; burn_string=12; eat_whitespace=6; json_unescape=8; memchr=12; parse_json_event=10
 //@ encodes: Event::from_json, parse_json_event and every reader it calls
-//@ bounds: the valid 365-byte event text (order 1) cut after 230 bytes, the last byte of the prefix arbitrary (truncation and single-byte corruption at the cut): no panic, consumed <= length
+//@ bounds: the valid 365-byte event text (order 1) cut after 230 bytes (pure truncation), arbitrary prior output buffer: no panic, consumed <= length
 //@ outside: prefix lengths that are not an instance of this family (inputs shorter than 204 bytes are rejected up front)
 #[kani::proof]
 #[kani::unwind(8)]
@@ -1133,9 +1119,9 @@ fn c03_event_prefix_o1_230() {
 //@ timeout: 1500
 //@ mem: 14
 //@ covers: none
-//@ unwindset: read_sig=66; read_id=34; read_pubkey=34; read_hex=66; memcmp.0=34; event_outlen_at=400; event_prefix_at=400; read_u64=22; read_kind=8; burn_string=12; eat_whitespace=6; json_unescape=8
+//@ unwindset: read_sig=66; read_id=34; read_pubkey=34; read_hex=66; memcmp.0=34; event_outlen_at=400; event_prefix_at=400; read_u64=22; read_kind=8; burn_string=12; eat_whitespace=6; json_unescape=8; memchr=12; parse_json_event=10
 //@ encodes: Event::from_json, parse_json_event and every reader it calls
-//@ bounds: the valid 365-byte event text (order 1) cut after 253 bytes, the last byte of the prefix arbitrary (truncation and single-byte corruption at the cut): no panic, consumed <= length
+//@ bounds: the valid 365-byte event text (order 1) cut after 253 bytes (pure truncation), arbitrary prior output buffer: no panic, consumed <= length
 //@ outside: prefix lengths that are not an instance of this family (inputs shorter than 204 bytes are rejected up front)
 #[kani::proof]
 #[kani::unwind(8)]
@@ -1150,9 +1136,9 @@ fn c03_event_prefix_o1_253() {
 //@ timeout: 1500
 //@ mem: 14
 //@ covers: none
-//@ unwindset: read_sig=66; read_id=34; read_pubkey=34; read_hex=66; memcmp.0=34; event_outlen_at=400; event_prefix_at=400; read_u64=22; read_kind=8; burn_string=12; eat_whitespace=6; json_unescape=8
+//@ unwindset: read_sig=66; read_id=34; read_pubkey=34; read_hex=66; memcmp.0=34; event_outlen_at=400; event_prefix_at=400; read_u64=22; read_kind=8; burn_string=12; eat_whitespace=6; json_unescape=8; memchr=12; parse_json_event=10
 //@ encodes: Event::from_json, parse_json_event and every reader it calls
-//@ bounds: the valid 365-byte event text (order 1) cut after 254 bytes, the last byte of the prefix arbitrary (truncation and single-byte corruption at the cut): no panic, consumed <= length
+//@ bounds: the valid 365-byte event text (order 1) cut after 254 bytes (pure truncation), arbitrary prior output buffer: no panic, consumed <= length
 //@ outside: prefix lengths that are not an instance of this family (inputs shorter than 204 bytes are rejected up front)
 #[kani::proof]
 #[kani::unwind(8)]
@@ -1167,9 +1153,9 @@ fn c03_event_prefix_o1_254() {
 //@ timeout: 1500
 //@ mem: 14
 //@ covers: none
-//@ unwindset: read_sig=66; read_id=34; read_pubkey=34; read_hex=66; memcmp.0=34; event_outlen_at=400; event_prefix_at=400; read_u64=22; read_kind=8; burn_string=12; eat_whitespace=6; json_unescape=8
+//@ unwindset: read_sig=66; read_id=34; read_pubkey=34; read_hex=66; memcmp.0=34; event_outlen_at=400; event_prefix_at=400; read_u64=22; read_kind=8; burn_string=12; eat_whitespace=6; json_unescape=8; memchr=12; parse_json_event=10
 //@ encodes: Event::from_json, parse_json_event and every reader it calls
-//@ bounds: the valid 365-byte event text (order 1) cut after 260 bytes, the last byte of the prefix arbitrary (truncation and single-byte corruption at the cut): no panic, consumed <= length
+//@ bounds: the valid 365-byte event text (order 1) cut after 260 bytes (pure truncation), arbitrary prior output buffer: no panic, consumed <= length
 //@ outside: prefix lengths that are not an instance of this family (inputs shorter than 204 bytes are rejected up front)
 #[kani::proof]
 #[kani::unwind(8)]
@@ -1184,9 +1170,9 @@ fn c03_event_prefix_o1_260() {
 //@ timeout: 1500
 //@ mem: 14
 //@ covers: none
-//@ unwindset: read_sig=66; read_id=34; read_pubkey=34; read_hex=66; memcmp.0=34; event_outlen_at=400; event_prefix_at=400; read_u64=22; read_kind=8; burn_string=12; eat_whitespace=6; json_unescape=8
+//@ unwindset: read_sig=66; read_id=34; read_pubkey=34; read_hex=66; memcmp.0=34; event_outlen_at=400; event_prefix_at=400; read_u64=22; read_kind=8; burn_string=12; eat_whitespace=6; json_unescape=8; memchr=12; parse_json_event=10
 //@ encodes: Event::from_json, parse_json_event and every reader it calls
-//@ bounds: the valid 365-byte event text (order 1) cut after 300 bytes, the last byte of the prefix arbitrary (truncation and single-byte corruption at the cut): no panic, consumed <= length
+//@ bounds: the valid 365-byte event text (order 1) cut after 300 bytes (pure truncation), arbitrary prior output buffer: no panic, consumed <= length
 //@ outside: prefix lengths that are not an instance of this family (inputs shorter than 204 bytes are rejected up front)
 #[kani::proof]
 #[kani::unwind(8)]
@@ -1201,9 +1187,9 @@ fn c03_event_prefix_o1_300() {
 //@ timeout: 1500
 //@ mem: 14
 //@ covers: none
-//@ unwindset: read_sig=66; read_id=34; read_pubkey=34; read_hex=66; memcmp.0=34; event_outlen_at=400; event_prefix_at=400; read_u64=22; read_kind=8; burn_string=12; eat_whitespace=6; json_unescape=8
+//@ unwindset: read_sig=66; read_id=34; read_pubkey=34; read_hex=66; memcmp.0=34; event_outlen_at=400; event_prefix_at=400; read_u64=22; read_kind=8; burn_string=12; eat_whitespace=6; json_unescape=8; memchr=12; parse_json_event=10
 //@ encodes: Event::from_json, parse_json_event and every reader it calls
-//@ bounds: the valid 365-byte event text (order 1) cut after 321 bytes, the last byte of the prefix arbitrary (truncation and single-byte corruption at the cut): no panic, consumed <= length
+//@ bounds: the valid 365-byte event text (order 1) cut after 321 bytes (pure truncation), arbitrary prior output buffer: no panic, consumed <= length
 //@ outside: prefix lengths that are not an instance of this family (inputs shorter than 204 bytes are rejected up front)
 #[kani::proof]
 #[kani::unwind(8)]
@@ -1218,9 +1204,9 @@ fn c03_event_prefix_o1_321() {
 //@ timeout: 1500
 //@ mem: 14
 //@ covers: none
-//@ unwindset: read_sig=66; read_id=34; read_pubkey=34; read_hex=66; memcmp.0=34; event_outlen_at=400; event_prefix_at=400; read_u64=22; read_kind=8; burn_string=12; eat_whitespace=6; json_unescape=8
+//@ unwindset: read_sig=66; read_id=34; read_pubkey=34; read_hex=66; memcmp.0=34; event_outlen_at=400; event_prefix_at=400; read_u64=22; read_kind=8; burn_string=12; eat_whitespace=6; json_unescape=8; memchr=12; parse_json_event=10
 //@ encodes: Event::from_json, parse_json_event and every reader it calls
-//@ bounds: the valid 365-byte event text (order 1) cut after 325 bytes, the last byte of the prefix arbitrary (truncation and single-byte corruption at the cut): no panic, consumed <= length
+//@ bounds: the valid 365-byte event text (order 1) cut after 325 bytes (pure truncation), arbitrary prior output buffer: no panic, consumed <= length
 //@ outside: prefix lengths that are not an instance of this family (inputs shorter than 204 bytes are rejected up front)
 #[kani::proof]
 #[kani::unwind(8)]
@@ -1235,9 +1221,9 @@ fn c03_event_prefix_o1_325() {
 //@ timeout: 1500
 //@ mem: 14
 //@ covers: none
-//@ unwindset: read_sig=66; read_id=34; read_pubkey=34; read_hex=66; memcmp.0=34; event_outlen_at=400; event_prefix_at=400; read_u64=22; read_kind=8; burn_string=12; eat_whitespace=6; json_unescape=8
+//@ unwindset: read_sig=66; read_id=34; read_pubkey=34; read_hex=66; memcmp.0=34; event_outlen_at=400; event_prefix_at=400; read_u64=22; read_kind=8; burn_string=12; eat_whitespace=6; json_unescape=8; memchr=12; parse_json_event=10
 //@ encodes: Event::from_json, parse_json_event and every reader it calls
-//@ bounds: the valid 365-byte event text (order 1) cut after 330 bytes, the last byte of the prefix arbitrary (truncation and single-byte corruption at the cut): no panic, consumed <= length
+//@ bounds: the valid 365-byte event text (order 1) cut after 330 bytes (pure truncation), arbitrary prior output buffer: no panic, consumed <= length
 //@ outside: prefix lengths that are not an instance of this family (inputs shorter than 204 bytes are rejected up front)
 #[kani::proof]
 #[kani::unwind(8)]
@@ -1252,9 +1238,9 @@ fn c03_event_prefix_o1_330() {
 //@ timeout: 1500
 //@ mem: 14
 //@ covers: none
-//@ unwindset: read_sig=66; read_id=34; read_pubkey=34; read_hex=66; memcmp.0=34; event_outlen_at=400; event_prefix_at=400; read_u64=22; read_kind=8; burn_string=12; eat_whitespace=6; json_unescape=8
+//@ unwindset: read_sig=66; read_id=34; read_pubkey=34; read_hex=66; memcmp.0=34; event_outlen_at=400; event_prefix_at=400; read_u64=22; read_kind=8; burn_string=12; eat_whitespace=6; json_unescape=8; memchr=12; parse_json_event=10
 //@ encodes: Event::from_json, parse_json_event and every reader it calls
-//@ bounds: the valid 365-byte event text (order 1) cut after 336 bytes, the last byte of the prefix arbitrary (truncation and single-byte corruption at the cut): no panic, consumed <= length
+//@ bounds: the valid 365-byte event text (order 1) cut after 336 bytes (pure truncation), arbitrary prior output buffer: no panic, consumed <= length
 //@ outside: prefix lengths that are not an instance of this family (inputs shorter than 204 bytes are rejected up front)
 #[kani::proof]
 #[kani::unwind(8)]
@@ -1269,9 +1255,9 @@ fn c03_event_prefix_o1_336() {
 //@ timeout: 1500
 //@ mem: 14
 //@ covers: none
-//@ unwindset: read_sig=66; read_id=34; read_pubkey=34; read_hex=66; memcmp.0=34; event_outlen_at=400; event_prefix_at=400; read_u64=22; read_kind=8; burn_string=12; eat_whitespace=6; json_unescape=8
+//@ unwindset: read_sig=66; read_id=34; read_pubkey=34; read_hex=66; memcmp.0=34; event_outlen_at=400; event_prefix_at=400; read_u64=22; read_kind=8; burn_string=12; eat_whitespace=6; json_unescape=8; memchr=12; parse_json_event=10
 //@ encodes: Event::from_json, parse_json_event and every reader it calls
-//@ bounds: the valid 365-byte event text (order 1) cut after 337 bytes, the last byte of the prefix arbitrary (truncation and single-byte corruption at the cut): no panic, consumed <= length
+//@ bounds: the valid 365-byte event text (order 1) cut after 337 bytes (pure truncation), arbitrary prior output buffer: no panic, consumed <= length
 //@ outside: prefix lengths that are not an instance of this family (inputs shorter than 204 bytes are rejected up front)
 #[kani::proof]
 #[kani::unwind(8)]
@@ -1286,9 +1272,9 @@ fn c03_event_prefix_o1_337() {
 //@ timeout: 1500
 //@ mem: 14
 //@ covers: none
-//@ unwindset: read_sig=66; read_id=34; read_pubkey=34; read_hex=66; memcmp.0=34; event_outlen_at=400; event_prefix_at=400; read_u64=22; read_kind=8; burn_string=12; eat_whitespace=6; json_unescape=8
+//@ unwindset: read_sig=66; read_id=34; read_pubkey=34; read_hex=66; memcmp.0=34; event_outlen_at=400; event_prefix_at=400; read_u64=22; read_kind=8; burn_string=12; eat_whitespace=6; json_unescape=8; memchr=12; parse_json_event=10
 //@ encodes: Event::from_json, parse_json_event and every reader it calls
-//@ bounds: the valid 365-byte event text (order 1) cut after 340 bytes, the last byte of the prefix arbitrary (truncation and single-byte corruption at the cut): no panic, consumed <= length
+//@ bounds: the valid 365-byte event text (order 1) cut after 340 bytes (pure truncation), arbitrary prior output buffer: no panic, consumed <= length
 //@ outside: prefix lengths that are not an instance of this family (inputs shorter than 204 bytes are rejected up front)
 #[kani::proof]
 #[kani::unwind(8)]
@@ -1303,9 +1289,9 @@ fn c03_event_prefix_o1_340() {
 //@ timeout: 1500
 //@ mem: 14
 //@ covers: none
-//@ unwindset: read_sig=66; read_id=34; read_pubkey=34; read_hex=66; memcmp.0=34; event_outlen_at=400; event_prefix_at=400; read_u64=22; read_kind=8; burn_string=12; eat_whitespace=6; json_unescape=8
+//@ unwindset: read_sig=66; read_id=34; read_pubkey=34; read_hex=66; memcmp.0=34; event_outlen_at=400; event_prefix_at=400; read_u64=22; read_kind=8; burn_string=12; eat_whitespace=6; json_unescape=8; memchr=12; parse_json_event=10
 //@ encodes: Event::from_json, parse_json_event and every reader it calls
-//@ bounds: the valid 365-byte event text (order 1) cut after 345 bytes, the last byte of the prefix arbitrary (truncation and single-byte corruption at the cut): no panic, consumed <= length
+//@ bounds: the valid 365-byte event text (order 1) cut after 345 bytes (pure truncation), arbitrary prior output buffer: no panic, consumed <= length
 //@ outside: prefix lengths that are not an instance of this family (inputs shorter than 204 bytes are rejected up front)
 #[kani::proof]
 #[kani::unwind(8)]
@@ -1320,9 +1306,9 @@ fn c03_event_prefix_o1_345() {
 //@ timeout: 1500
 //@ mem: 14
 //@ covers: none
-//@ unwindset: read_sig=66; read_id=34; read_pubkey=34; read_hex=66; memcmp.0=34; event_outlen_at=400; event_prefix_at=400; read_u64=22; read_kind=8; burn_string=12; eat_whitespace=6; json_unescape=8
+//@ unwindset: read_sig=66; read_id=34; read_pubkey=34; read_hex=66; memcmp.0=34; event_outlen_at=400; event_prefix_at=400; read_u64=22; read_kind=8; burn_string=12; eat_whitespace=6; json_unescape=8; memchr=12; parse_json_event=10
 //@ encodes: Event::from_json, parse_json_event and every reader it calls
-//@ bounds: the valid 365-byte event text (order 1) cut after 349 bytes, the last byte of the prefix arbitrary (truncation and single-byte corruption at the cut): no panic, consumed <= length
+//@ bounds: the valid 365-byte event text (order 1) cut after 349 bytes (pure truncation), arbitrary prior output buffer: no panic, consumed <= length
 //@ outside: prefix lengths that are not an instance of this family (inputs shorter than 204 bytes are rejected up front)
 #[kani::proof]
 #[kani::unwind(8)]
@@ -1337,9 +1323,9 @@ fn c03_event_prefix_o1_349() {
 //@ timeout: 1500
 //@ mem: 14
 //@ covers: none
-//@ unwindset: read_sig=66; read_id=34; read_pubkey=34; read_hex=66; memcmp.0=34; event_outlen_at=400; event_prefix_at=400; read_u64=22; read_kind=8; burn_string=12; eat_whitespace=6; json_unescape=8
+//@ unwindset: read_sig=66; read_id=34; read_pubkey=34; read_hex=66; memcmp.0=34; event_outlen_at=400; event_prefix_at=400; read_u64=22; read_kind=8; burn_string=12; eat_whitespace=6; json_unescape=8; memchr=12; parse_json_event=10
 //@ encodes: Event::from_json, parse_json_event and every reader it calls
-//@ bounds: the valid 365-byte event text (order 1) cut after 350 bytes, the last byte of the prefix arbitrary (truncation and single-byte corruption at the cut): no panic, consumed <= length
+//@ bounds: the valid 365-byte event text (order 1) cut after 350 bytes (pure truncation), arbitrary prior output buffer: no panic, consumed <= length
 //@ outside: prefix lengths that are not an instance of this family (inputs shorter than 204 bytes are rejected up front)
 #[kani::proof]
 #[kani::unwind(8)]
@@ -1354,9 +1340,9 @@ fn c03_event_prefix_o1_350() {
 //@ timeout: 1500
 //@ mem: 14
 //@ covers: none
-//@ unwindset: read_sig=66; read_id=34; read_pubkey=34; read_hex=66; memcmp.0=34; event_outlen_at=400; event_prefix_at=400; read_u64=22; read_kind=8; burn_string=12; eat_whitespace=6; json_unescape=8
+//@ unwindset: read_sig=66; read_id=34; read_pubkey=34; read_hex=66; memcmp.0=34; event_outlen_at=400; event_prefix_at=400; read_u64=22; read_kind=8; burn_string=12; eat_whitespace=6; json_unescape=8; memchr=12; parse_json_event=10
 //@ encodes: Event::from_json, parse_json_event and every reader it calls
-//@ bounds: the valid 365-byte event text (order 1) cut after 355 bytes, the last byte of the prefix arbitrary (truncation and single-byte corruption at the cut): no panic, consumed <= length
+//@ bounds: the valid 365-byte event text (order 1) cut after 355 bytes (pure truncation), arbitrary prior output buffer: no panic, consumed <= length
 //@ outside: prefix lengths that are not an instance of this family (inputs shorter than 204 bytes are rejected up front)
 #[kani::proof]
 #[kani::unwind(8)]
@@ -1371,9 +1357,9 @@ fn c03_event_prefix_o1_355() {
 //@ timeout: 1500
 //@ mem: 14
 //@ covers: none
-//@ unwindset: read_sig=66; read_id=34; read_pubkey=34; read_hex=66; memcmp.0=34; event_outlen_at=400; event_prefix_at=400; read_u64=22; read_kind=8; burn_string=12; eat_whitespace=6; json_unescape=8
+//@ unwindset: read_sig=66; read_id=34; read_pubkey=34; read_hex=66; memcmp.0=34; event_outlen_at=400; event_prefix_at=400; read_u64=22; read_kind=8; burn_string=12; eat_whitespace=6; json_unescape=8; memchr=12; parse_json_event=10
 //@ encodes: Event::from_json, parse_json_event and every reader it calls
-//@ bounds: the valid 365-byte event text (order 1) cut after 356 bytes, the last byte of the prefix arbitrary (truncation and single-byte corruption at the cut): no panic, consumed <= length
+//@ bounds: the valid 365-byte event text (order 1) cut after 356 bytes (pure truncation), arbitrary prior output buffer: no panic, consumed <= length
 //@ outside: prefix lengths that are not an instance of this family (inputs shorter than 204 bytes are rejected up front)
 #[kani::proof]
 #[kani::unwind(8)]
@@ -1388,9 +1374,9 @@ fn c03_event_prefix_o1_356() {
 //@ timeout: 1500
 //@ mem: 14
 //@ covers: none
-//@ unwindset: read_sig=66; read_id=34; read_pubkey=34; read_hex=66; memcmp.0=34; event_outlen_at=400; event_prefix_at=400; read_u64=22; read_kind=8; burn_string=12; eat_whitespace=6; json_unescape=8
+//@ unwindset: read_sig=66; read_id=34; read_pubkey=34; read_hex=66; memcmp.0=34; event_outlen_at=400; event_prefix_at=400; read_u64=22; read_kind=8; burn_string=12; eat_whitespace=6; json_unescape=8; memchr=12; parse_json_event=10
 //@ encodes: Event::from_json, parse_json_event and every reader it calls
-//@ bounds: the valid 365-byte event text (order 1) cut after 360 bytes, the last byte of the prefix arbitrary (truncation and single-byte corruption at the cut): no panic, consumed <= length
+//@ bounds: the valid 365-byte event text (order 1) cut after 360 bytes (pure truncation), arbitrary prior output buffer: no panic, consumed <= length
 //@ outside: prefix lengths that are not an instance of this family (inputs shorter than 204 bytes are rejected up front)
 #[kani::proof]
 #[kani::unwind(8)]
@@ -1405,9 +1391,9 @@ fn c03_event_prefix_o1_360() {
 //@ timeout: 1500
 //@ mem: 14
 //@ covers: none
-//@ unwindset: read_sig=66; read_id=34; read_pubkey=34; read_hex=66; memcmp.0=34; event_outlen_at=400; event_prefix_at=400; read_u64=22; read_kind=8; burn_string=12; eat_whitespace=6; json_unescape=8
+//@ unwindset: read_sig=66; read_id=34; read_pubkey=34; read_hex=66; memcmp.0=34; event_outlen_at=400; event_prefix_at=400; read_u64=22; read_kind=8; burn_string=12; eat_whitespace=6; json_unescape=8; memchr=12; parse_json_event=10
 //@ encodes: Event::from_json, parse_json_event and every reader it calls
-//@ bounds: the valid 365-byte event text (order 1) cut after 362 bytes, the last byte of the prefix arbitrary (truncation and single-byte corruption at the cut): no panic, consumed <= length
+//@ bounds: the valid 365-byte event text (order 1) cut after 362 bytes (pure truncation), arbitrary prior output buffer: no panic, consumed <= length
 //@ outside: prefix lengths that are not an instance of this family (inputs shorter than 204 bytes are rejected up front)
 #[kani::proof]
 #[kani::unwind(8)]
@@ -1422,9 +1408,9 @@ fn c03_event_prefix_o1_362() {
 //@ timeout: 1500
 //@ mem: 14
 //@ covers: none
-//@ unwindset: read_sig=66; read_id=34; read_pubkey=34; read_hex=66; memcmp.0=34; event_outlen_at=400; event_prefix_at=400; read_u64=22; read_kind=8; burn_string=12; eat_whitespace=6; json_unescape=8
+//@ unwindset: read_sig=66; read_id=34; read_pubkey=34; read_hex=66; memcmp.0=34; event_outlen_at=400; event_prefix_at=400; read_u64=22; read_kind=8; burn_string=12; eat_whitespace=6; json_unescape=8; memchr=12; parse_json_event=10
 //@ encodes: Event::from_json, parse_json_event and every reader it calls
-//@ bounds: the valid 365-byte event text (order 1) cut after 363 bytes, the last byte of the prefix arbitrary (truncation and single-byte corruption at the cut): no panic, consumed <= length
+//@ bounds: the valid 365-byte event text (order 1) cut after 363 bytes (pure truncation), arbitrary prior output buffer: no panic, consumed <= length
 //@ outside: prefix lengths that are not an instance of this family (inputs shorter than 204 bytes are rejected up front)
 #[kani::proof]
 #[kani::unwind(8)]
@@ -1438,9 +1424,9 @@ fn c03_event_prefix_o1_363() {
 //@ timeout: 1500
 //@ mem: 14
 //@ covers: none
-//@ unwindset: read_sig=66; read_id=34; read_pubkey=34; read_hex=66; memcmp.0=34; event_outlen_at=400; event_prefix_at=400; read_u64=22; read_kind=8; burn_string=12; eat_whitespace=6; json_unescape=8
+//@ unwindset: read_sig=66; read_id=34; read_pubkey=34; read_hex=66; memcmp.0=34; event_outlen_at=400; event_prefix_at=400; read_u64=22; read_kind=8; burn_string=12; eat_whitespace=6; json_unescape=8; memchr=12; parse_json_event=10
 //@ encodes: Event::from_json, parse_json_event and every reader it calls
-//@ bounds: the valid 365-byte event text (order 1) cut after 364 bytes, the last byte of the prefix arbitrary (truncation and single-byte corruption at the cut): no panic, consumed <= length
+//@ bounds: the valid 365-byte event text (order 1) cut after 364 bytes (pure truncation), arbitrary prior output buffer: no panic, consumed <= length
 //@ outside: prefix lengths that are not an instance of this family (inputs shorter than 204 bytes are rejected up front)
 #[kani::proof]
 #[kani::unwind(8)]
@@ -1455,9 +1441,9 @@ fn c03_event_prefix_o1_364() {
 //@ timeout: 1500
 //@ mem: 14
 //@ covers: none
-//@ unwindset: read_sig=66; read_id=34; read_pubkey=34; read_hex=66; memcmp.0=34; event_outlen_at=400; event_prefix_at=400; read_u64=22; read_kind=8; burn_string=12; eat_whitespace=6; json_unescape=8
+//@ unwindset: read_sig=66; read_id=34; read_pubkey=34; read_hex=66; memcmp.0=34; event_outlen_at=400; event_prefix_at=400; read_u64=22; read_kind=8; burn_string=12; eat_whitespace=6; json_unescape=8; memchr=12; parse_json_event=10
 //@ encodes: Event::from_json, parse_json_event and every reader it calls
-//@ bounds: the valid 365-byte event text (order 1) cut after 365 bytes, the last byte of the prefix arbitrary (truncation and single-byte corruption at the cut): no panic, consumed <= length
+//@ bounds: the valid 365-byte event text (order 1) cut after 365 bytes (pure truncation), arbitrary prior output buffer: no panic, consumed <= length
 //@ outside: prefix lengths that are not an instance of this family (inputs shorter than 204 bytes are rejected up front)
 #[kani::proof]
 #[kani::unwind(8)]
@@ -1472,9 +1458,9 @@ fn c03_event_prefix_o1_365() {
 //@ timeout: 1500
 //@ mem: 14
 //@ covers: none
-//@ unwindset: read_sig=66; read_id=34; read_pubkey=34; read_hex=66; memcmp.0=34; event_outlen_at=400; event_prefix_at=400; read_u64=22; read_kind=8; burn_string=12; eat_whitespace=6; json_unescape=8
+//@ unwindset: read_sig=66; read_id=34; read_pubkey=34; read_hex=66; memcmp.0=34; event_outlen_at=400; event_prefix_at=400; read_u64=22; read_kind=8; burn_string=12; eat_whitespace=6; json_unescape=8; memchr=12; parse_json_event=10
 //@ encodes: Event::from_json, parse_json_event and every reader it calls
-//@ bounds: the valid 365-byte event text (order 2: content before tags) cut after 204 bytes, the last byte of the prefix arbitrary (truncation and single-byte corruption at the cut): no panic, consumed <= length
+//@ bounds: the valid 365-byte event text (order 2: content before tags) cut after 204 bytes (pure truncation), arbitrary prior output buffer: no panic, consumed <= length
 //@ outside: prefix lengths that are not an instance of this family (inputs shorter than 204 bytes are rejected up front)
 #[kani::proof]
 #[kani::unwind(8)]
@@ -1489,9 +1475,9 @@ fn c03_event_prefix_o2_204() {
 //@ timeout: 1500
 //@ mem: 14
 //@ covers: none
-//@ unwindset: read_sig=66; read_id=34; read_pubkey=34; read_hex=66; memcmp.0=34; event_outlen_at=400; event_prefix_at=400; read_u64=22; read_kind=8; burn_string=12; eat_whitespace=6; json_unescape=8
+//@ unwindset: read_sig=66; read_id=34; read_pubkey=34; read_hex=66; memcmp.0=34; event_outlen_at=400; event_prefix_at=400; read_u64=22; read_kind=8; burn_string=12; eat_whitespace=6; json_unescape=8; memchr=12; parse_json_event=10
 //@ encodes: Event::from_json, parse_json_event and every reader it calls
-//@ bounds: the valid 365-byte event text (order 2: content before tags) cut after 205 bytes, the last byte of the prefix arbitrary (truncation and single-byte corruption at the cut): no panic, consumed <= length
+//@ bounds: the valid 365-byte event text (order 2: content before tags) cut after 205 bytes (pure truncation), arbitrary prior output buffer: no panic, consumed <= length
 //@ outside: prefix lengths that are not an instance of this family (inputs shorter than 204 bytes are rejected up front)
 #[kani::proof]
 #[kani::unwind(8)]
@@ -1506,9 +1492,9 @@ fn c03_event_prefix_o2_205() {
 //@ timeout: 1500
 //@ mem: 14
 //@ covers: none
-//@ unwindset: read_sig=66; read_id=34; read_pubkey=34; read_hex=66; memcmp.0=34; event_outlen_at=400; event_prefix_at=400; read_u64=22; read_kind=8; burn_string=12; eat_whitespace=6; json_unescape=8
+//@ unwindset: read_sig=66; read_id=34; read_pubkey=34; read_hex=66; memcmp.0=34; event_outlen_at=400; event_prefix_at=400; read_u64=22; read_kind=8; burn_string=12; eat_whitespace=6; json_unescape=8; memchr=12; parse_json_event=10
 //@ encodes: Event::from_json, parse_json_event and every reader it calls
-//@ bounds: the valid 365-byte event text (order 2: content before tags) cut after 210 bytes, the last byte of the prefix arbitrary (truncation and single-byte corruption at the cut): no panic, consumed <= length
+//@ bounds: the valid 365-byte event text (order 2: content before tags) cut after 210 bytes (pure truncation), arbitrary prior output buffer: no panic, consumed <= length
 //@ outside: prefix lengths that are not an instance of this family (inputs shorter than 204 bytes are rejected up front)
 #[kani::proof]
 #[kani::unwind(8)]
@@ -1523,9 +1509,9 @@ fn c03_event_prefix_o2_210() {
 //@ timeout: 1500
 //@ mem: 14
 //@ covers: none
-//@ unwindset: read_sig=66; read_id=34; read_pubkey=34; read_hex=66; memcmp.0=34; event_outlen_at=400; event_prefix_at=400; read_u64=22; read_kind=8; burn_string=12; eat_whitespace=6; json_unescape=8
+//@ unwindset: read_sig=66; read_id=34; read_pubkey=34; read_hex=66; memcmp.0=34; event_outlen_at=400; event_prefix_at=400; read_u64=22; read_kind=8; burn_string=12; eat_whitespace=6; json_unescape=8; memchr=12; parse_json_event=10
 //@ encodes: Event::from_json, parse_json_event and every reader it calls
-//@ bounds: the valid 365-byte event text (order 2: content before tags) cut after 222 bytes, the last byte of the prefix arbitrary (truncation and single-byte corruption at the cut): no panic, consumed <= length
+//@ bounds: the valid 365-byte event text (order 2: content before tags) cut after 222 bytes (pure truncation), arbitrary prior output buffer: no panic, consumed <= length
 //@ outside: prefix lengths that are not an instance of this family (inputs shorter than 204 bytes are rejected up front)
 #[kani::proof]
 #[kani::unwind(8)]
@@ -1540,9 +1526,9 @@ fn c03_event_prefix_o2_222() {
 //@ timeout: 1500
 //@ mem: 14
 //@ covers: none
-//@ unwindset: read_sig=66; read_id=34; read_pubkey=34; read_hex=66; memcmp.0=34; event_outlen_at=400; event_prefix_at=400; read_u64=22; read_kind=8; burn_string=12; eat_whitespace=6; json_unescape=8
+//@ unwindset: read_sig=66; read_id=34; read_pubkey=34; read_hex=66; memcmp.0=34; event_outlen_at=400; event_prefix_at=400; read_u64=22; read_kind=8; burn_string=12; eat_whitespace=6; json_unescape=8; memchr=12; parse_json_event=10
 //@ encodes: Event::from_json, parse_json_event and every reader it calls
-//@ bounds: the valid 365-byte event text (order 2: content before tags) cut after 226 bytes, the last byte of the prefix arbitrary (truncation and single-byte corruption at the cut): no panic, consumed <= length
+//@ bounds: the valid 365-byte event text (order 2: content before tags) cut after 226 bytes (pure truncation), arbitrary prior output buffer: no panic, consumed <= length
 //@ outside: prefix lengths that are not an instance of this family (inputs shorter than 204 bytes are rejected up front)
 #[kani::proof]
 #[kani::unwind(8)]
@@ -1556,9 +1542,9 @@ fn c03_event_prefix_o2_226() {
 //@ timeout: 1500
 //@ mem: 14
 //@ covers: none
-//@ unwindset: read_sig=66; read_id=34; read_pubkey=34; read_hex=66; memcmp.0=34; event_outlen_at=400; event_prefix_at=400; read_u64=22; read_kind=8; burn_string=12; eat_whitespace=6; json_unescape=8
+//@ unwindset: read_sig=66; read_id=34; read_pubkey=34; read_hex=66; memcmp.0=34; event_outlen_at=400; event_prefix_at=400; read_u64=22; read_kind=8; burn_string=12; eat_whitespace=6; json_unescape=8; memchr=12; parse_json_event=10
 //@ encodes: Event::from_json, parse_json_event and every reader it calls
-//@ bounds: the valid 365-byte event text (order 2: content before tags) cut after 230 bytes, the last byte of the prefix arbitrary (truncation and single-byte corruption at the cut): no panic, consumed <= length
+//@ bounds: the valid 365-byte event text (order 2: content before tags) cut after 230 bytes (pure truncation), arbitrary prior output buffer: no panic, consumed <= length
 //@ outside: prefix lengths that are not an instance of this family (inputs shorter than 204 bytes are rejected up front)
 #[kani::proof]
 #[kani::unwind(8)]
@@ -1573,9 +1559,9 @@ fn c03_event_prefix_o2_230() {
 //@ timeout: 1500
 //@ mem: 14
 //@ covers: none
-//@ unwindset: read_sig=66; read_id=34; read_pubkey=34; read_hex=66; memcmp.0=34; event_outlen_at=400; event_prefix_at=400; read_u64=22; read_kind=8; burn_string=12; eat_whitespace=6; json_unescape=8
+//@ unwindset: read_sig=66; read_id=34; read_pubkey=34; read_hex=66; memcmp.0=34; event_outlen_at=400; event_prefix_at=400; read_u64=22; read_kind=8; burn_string=12; eat_whitespace=6; json_unescape=8; memchr=12; parse_json_event=10
 //@ encodes: Event::from_json, parse_json_event and every reader it calls
-//@ bounds: the valid 365-byte event text (order 2: content before tags) cut after 253 bytes, the last byte of the prefix arbitrary (truncation and single-byte corruption at the cut): no panic, consumed <= length
+//@ bounds: the valid 365-byte event text (order 2: content before tags) cut after 253 bytes (pure truncation), arbitrary prior output buffer: no panic, consumed <= length
 //@ outside: prefix lengths that are not an instance of this family (inputs shorter than 204 bytes are rejected up front)
 #[kani::proof]
 #[kani::unwind(8)]
@@ -1590,9 +1576,9 @@ fn c03_event_prefix_o2_253() {
 //@ timeout: 1500
 //@ mem: 14
 //@ covers: none
-//@ unwindset: read_sig=66; read_id=34; read_pubkey=34; read_hex=66; memcmp.0=34; event_outlen_at=400; event_prefix_at=400; read_u64=22; read_kind=8; burn_string=12; eat_whitespace=6; json_unescape=8
+//@ unwindset: read_sig=66; read_id=34; read_pubkey=34; read_hex=66; memcmp.0=34; event_outlen_at=400; event_prefix_at=400; read_u64=22; read_kind=8; burn_string=12; eat_whitespace=6; json_unescape=8; memchr=12; parse_json_event=10
 //@ encodes: Event::from_json, parse_json_event and every reader it calls
-//@ bounds: the valid 365-byte event text (order 2: content before tags) cut after 254 bytes, the last byte of the prefix arbitrary (truncation and single-byte corruption at the cut): no panic, consumed <= length
+//@ bounds: the valid 365-byte event text (order 2: content before tags) cut after 254 bytes (pure truncation), arbitrary prior output buffer: no panic, consumed <= length
 //@ outside: prefix lengths that are not an instance of this family (inputs shorter than 204 bytes are rejected up front)
 #[kani::proof]
 #[kani::unwind(8)]
@@ -1607,9 +1593,9 @@ fn c03_event_prefix_o2_254() {
 //@ timeout: 1500
 //@ mem: 14
 //@ covers: none
-//@ unwindset: read_sig=66; read_id=34; read_pubkey=34; read_hex=66; memcmp.0=34; event_outlen_at=400; event_prefix_at=400; read_u64=22; read_kind=8; burn_string=12; eat_whitespace=6; json_unescape=8
+//@ unwindset: read_sig=66; read_id=34; read_pubkey=34; read_hex=66; memcmp.0=34; event_outlen_at=400; event_prefix_at=400; read_u64=22; read_kind=8; burn_string=12; eat_whitespace=6; json_unescape=8; memchr=12; parse_json_event=10
 //@ encodes: Event::from_json, parse_json_event and every reader it calls
-//@ bounds: the valid 365-byte event text (order 2: content before tags) cut after 260 bytes, the last byte of the prefix arbitrary (truncation and single-byte corruption at the cut): no panic, consumed <= length
+//@ bounds: the valid 365-byte event text (order 2: content before tags) cut after 260 bytes (pure truncation), arbitrary prior output buffer: no panic, consumed <= length
 //@ outside: prefix lengths that are not an instance of this family (inputs shorter than 204 bytes are rejected up front)
 #[kani::proof]
 #[kani::unwind(8)]
@@ -1624,9 +1610,9 @@ fn c03_event_prefix_o2_260() {
 //@ timeout: 1500
 //@ mem: 14
 //@ covers: none
-//@ unwindset: read_sig=66; read_id=34; read_pubkey=34; read_hex=66; memcmp.0=34; event_outlen_at=400; event_prefix_at=400; read_u64=22; read_kind=8; burn_string=12; eat_whitespace=6; json_unescape=8
+//@ unwindset: read_sig=66; read_id=34; read_pubkey=34; read_hex=66; memcmp.0=34; event_outlen_at=400; event_prefix_at=400; read_u64=22; read_kind=8; burn_string=12; eat_whitespace=6; json_unescape=8; memchr=12; parse_json_event=10
 //@ encodes: Event::from_json, parse_json_event and every reader it calls
-//@ bounds: the valid 365-byte event text (order 2: content before tags) cut after 300 bytes, the last byte of the prefix arbitrary (truncation and single-byte corruption at the cut): no panic, consumed <= length
+//@ bounds: the valid 365-byte event text (order 2: content before tags) cut after 300 bytes (pure truncation), arbitrary prior output buffer: no panic, consumed <= length
 //@ outside: prefix lengths that are not an instance of this family (inputs shorter than 204 bytes are rejected up front)
 #[kani::proof]
 #[kani::unwind(8)]
@@ -1641,9 +1627,9 @@ fn c03_event_prefix_o2_300() {
 //@ timeout: 1500
 //@ mem: 14
 //@ covers: none
-//@ unwindset: read_sig=66; read_id=34; read_pubkey=34; read_hex=66; memcmp.0=34; event_outlen_at=400; event_prefix_at=400; read_u64=22; read_kind=8; burn_string=12; eat_whitespace=6; json_unescape=8
+//@ unwindset: read_sig=66; read_id=34; read_pubkey=34; read_hex=66; memcmp.0=34; event_outlen_at=400; event_prefix_at=400; read_u64=22; read_kind=8; burn_string=12; eat_whitespace=6; json_unescape=8; memchr=12; parse_json_event=10
 //@ encodes: Event::from_json, parse_json_event and every reader it calls
-//@ bounds: the valid 365-byte event text (order 2: content before tags) cut after 321 bytes, the last byte of the prefix arbitrary (truncation and single-byte corruption at the cut): no panic, consumed <= length
+//@ bounds: the valid 365-byte event text (order 2: content before tags) cut after 321 bytes (pure truncation), arbitrary prior output buffer: no panic, consumed <= length
 //@ outside: prefix lengths that are not an instance of this family (inputs shorter than 204 bytes are rejected up front)
 #[kani::proof]
 #[kani::unwind(8)]
@@ -1658,9 +1644,9 @@ fn c03_event_prefix_o2_321() {
 //@ timeout: 1500
 //@ mem: 14
 //@ covers: none
-//@ unwindset: read_sig=66; read_id=34; read_pubkey=34; read_hex=66; memcmp.0=34; event_outlen_at=400; event_prefix_at=400; read_u64=22; read_kind=8; burn_string=12; eat_whitespace=6; json_unescape=8
+//@ unwindset: read_sig=66; read_id=34; read_pubkey=34; read_hex=66; memcmp.0=34; event_outlen_at=400; event_prefix_at=400; read_u64=22; read_kind=8; burn_string=12; eat_whitespace=6; json_unescape=8; memchr=12; parse_json_event=10
 //@ encodes: Event::from_json, parse_json_event and every reader it calls
-//@ bounds: the valid 365-byte event text (order 2: content before tags) cut after 325 bytes, the last byte of the prefix arbitrary (truncation and single-byte corruption at the cut): no panic, consumed <= length
+//@ bounds: the valid 365-byte event text (order 2: content before tags) cut after 325 bytes (pure truncation), arbitrary prior output buffer: no panic, consumed <= length
 //@ outside: prefix lengths that are not an instance of this family (inputs shorter than 204 bytes are rejected up front)
 #[kani::proof]
 #[kani::unwind(8)]
@@ -1675,9 +1661,9 @@ fn c03_event_prefix_o2_325() {
 //@ timeout: 1500
 //@ mem: 14
 //@ covers: none
-//@ unwindset: read_sig=66; read_id=34; read_pubkey=34; read_hex=66; memcmp.0=34; event_outlen_at=400; event_prefix_at=400; read_u64=22; read_kind=8; burn_string=12; eat_whitespace=6; json_unescape=8
+//@ unwindset: read_sig=66; read_id=34; read_pubkey=34; read_hex=66; memcmp.0=34; event_outlen_at=400; event_prefix_at=400; read_u64=22; read_kind=8; burn_string=12; eat_whitespace=6; json_unescape=8; memchr=12; parse_json_event=10
 //@ encodes: Event::from_json, parse_json_event and every reader it calls
-//@ bounds: the valid 365-byte event text (order 2: content before tags) cut after 330 bytes, the last byte of the prefix arbitrary (truncation and single-byte corruption at the cut): no panic, consumed <= length
+//@ bounds: the valid 365-byte event text (order 2: content before tags) cut after 330 bytes (pure truncation), arbitrary prior output buffer: no panic, consumed <= length
 //@ outside: prefix lengths that are not an instance of this family (inputs shorter than 204 bytes are rejected up front)
 #[kani::proof]
 #[kani::unwind(8)]
@@ -1692,9 +1678,9 @@ fn c03_event_prefix_o2_330() {
 //@ timeout: 1500
 //@ mem: 14
 //@ covers: none
-//@ unwindset: read_sig=66; read_id=34; read_pubkey=34; read_hex=66; memcmp.0=34; event_outlen_at=400; event_prefix_at=400; read_u64=22; read_kind=8; burn_string=12; eat_whitespace=6; json_unescape=8
+//@ unwindset: read_sig=66; read_id=34; read_pubkey=34; read_hex=66; memcmp.0=34; event_outlen_at=400; event_prefix_at=400; read_u64=22; read_kind=8; burn_string=12; eat_whitespace=6; json_unescape=8; memchr=12; parse_json_event=10
 //@ encodes: Event::from_json, parse_json_event and every reader it calls
-//@ bounds: the valid 365-byte event text (order 2: content before tags) cut after 336 bytes, the last byte of the prefix arbitrary (truncation and single-byte corruption at the cut): no panic, consumed <= length
+//@ bounds: the valid 365-byte event text (order 2: content before tags) cut after 336 bytes (pure truncation), arbitrary prior output buffer: no panic, consumed <= length
 //@ outside: prefix lengths that are not an instance of this family (inputs shorter than 204 bytes are rejected up front)
 #[kani::proof]
 #[kani::unwind(8)]
@@ -1709,9 +1695,9 @@ fn c03_event_prefix_o2_336() {
 //@ timeout: 1500
 //@ mem: 14
 //@ covers: none
-//@ unwindset: read_sig=66; read_id=34; read_pubkey=34; read_hex=66; memcmp.0=34; event_outlen_at=400; event_prefix_at=400; read_u64=22; read_kind=8; burn_string=12; eat_whitespace=6; json_unescape=8
+//@ unwindset: read_sig=66; read_id=34; read_pubkey=34; read_hex=66; memcmp.0=34; event_outlen_at=400; event_prefix_at=400; read_u64=22; read_kind=8; burn_string=12; eat_whitespace=6; json_unescape=8; memchr=12; parse_json_event=10
 //@ encodes: Event::from_json, parse_json_event and every reader it calls
-//@ bounds: the valid 365-byte event text (order 2: content before tags) cut after 337 bytes, the last byte of the prefix arbitrary (truncation and single-byte corruption at the cut): no panic, consumed <= length
+//@ bounds: the valid 365-byte event text (order 2: content before tags) cut after 337 bytes (pure truncation), arbitrary prior output buffer: no panic, consumed <= length
 //@ outside: prefix lengths that are not an instance of this family (inputs shorter than 204 bytes are rejected up front)
 #[kani::proof]
 #[kani::unwind(8)]
@@ -1726,9 +1712,9 @@ fn c03_event_prefix_o2_337() {
 //@ timeout: 1500
 //@ mem: 14
 //@ covers: none
-//@ unwindset: read_sig=66; read_id=34; read_pubkey=34; read_hex=66; memcmp.0=34; event_outlen_at=400; event_prefix_at=400; read_u64=22; read_kind=8; burn_string=12; eat_whitespace=6; json_unescape=8
+//@ unwindset: read_sig=66; read_id=34; read_pubkey=34; read_hex=66; memcmp.0=34; event_outlen_at=400; event_prefix_at=400; read_u64=22; read_kind=8; burn_string=12; eat_whitespace=6; json_unescape=8; memchr=12; parse_json_event=10
 //@ encodes: Event::from_json, parse_json_event and every reader it calls
-//@ bounds: the valid 365-byte event text (order 2: content before tags) cut after 340 bytes, the last byte of the prefix arbitrary (truncation and single-byte corruption at the cut): no panic, consumed <= length
+//@ bounds: the valid 365-byte event text (order 2: content before tags) cut after 340 bytes (pure truncation), arbitrary prior output buffer: no panic, consumed <= length
 //@ outside: prefix lengths that are not an instance of this family (inputs shorter than 204 bytes are rejected up front)
 #[kani::proof]
 #[kani::unwind(8)]
@@ -1743,9 +1729,9 @@ fn c03_event_prefix_o2_340() {
 //@ timeout: 1500
 //@ mem: 14
 //@ covers: none
-//@ unwindset: read_sig=66; read_id=34; read_pubkey=34; read_hex=66; memcmp.0=34; event_outlen_at=400; event_prefix_at=400; read_u64=22; read_kind=8; burn_string=12; eat_whitespace=6; json_unescape=8
+//@ unwindset: read_sig=66; read_id=34; read_pubkey=34; read_hex=66; memcmp.0=34; event_outlen_at=400; event_prefix_at=400; read_u64=22; read_kind=8; burn_string=12; eat_whitespace=6; json_unescape=8; memchr=12; parse_json_event=10
 //@ encodes: Event::from_json, parse_json_event and every reader it calls
-//@ bounds: the valid 365-byte event text (order 2: content before tags) cut after 345 bytes, the last byte of the prefix arbitrary (truncation and single-byte corruption at the cut): no panic, consumed <= length
+//@ bounds: the valid 365-byte event text (order 2: content before tags) cut after 345 bytes (pure truncation), arbitrary prior output buffer: no panic, consumed <= length
 //@ outside: prefix lengths that are not an instance of this family (inputs shorter than 204 bytes are rejected up front)
 #[kani::proof]
 #[kani::unwind(8)]
@@ -1760,9 +1746,9 @@ fn c03_event_prefix_o2_345() {
 //@ timeout: 1500
 //@ mem: 14
 //@ covers: none
-//@ unwindset: read_sig=66; read_id=34; read_pubkey=34; read_hex=66; memcmp.0=34; event_outlen_at=400; event_prefix_at=400; read_u64=22; read_kind=8; burn_string=12; eat_whitespace=6; json_unescape=8
+//@ unwindset: read_sig=66; read_id=34; read_pubkey=34; read_hex=66; memcmp.0=34; event_outlen_at=400; event_prefix_at=400; read_u64=22; read_kind=8; burn_string=12; eat_whitespace=6; json_unescape=8; memchr=12; parse_json_event=10
 //@ encodes: Event::from_json, parse_json_event and every reader it calls
-//@ bounds: the valid 365-byte event text (order 2: content before tags) cut after 349 bytes, the last byte of the prefix arbitrary (truncation and single-byte corruption at the cut): no panic, consumed <= length
+//@ bounds: the valid 365-byte event text (order 2: content before tags) cut after 349 bytes (pure truncation), arbitrary prior output buffer: no panic, consumed <= length
 //@ outside: prefix lengths that are not an instance of this family (inputs shorter than 204 bytes are rejected up front)
 #[kani::proof]
 #[kani::unwind(8)]
@@ -1777,9 +1763,9 @@ fn c03_event_prefix_o2_349() {
 //@ timeout: 1500
 //@ mem: 14
 //@ covers: none
-//@ unwindset: read_sig=66; read_id=34; read_pubkey=34; read_hex=66; memcmp.0=34; event_outlen_at=400; event_prefix_at=400; read_u64=22; read_kind=8; burn_string=12; eat_whitespace=6; json_unescape=8
+//@ unwindset: read_sig=66; read_id=34; read_pubkey=34; read_hex=66; memcmp.0=34; event_outlen_at=400; event_prefix_at=400; read_u64=22; read_kind=8; burn_string=12; eat_whitespace=6; json_unescape=8; memchr=12; parse_json_event=10
 //@ encodes: Event::from_json, parse_json_event and every reader it calls
-//@ bounds: the valid 365-byte event text (order 2: content before tags) cut after 350 bytes, the last byte of the prefix arbitrary (truncation and single-byte corruption at the cut): no panic, consumed <= length
+//@ bounds: the valid 365-byte event text (order 2: content before tags) cut after 350 bytes (pure truncation), arbitrary prior output buffer: no panic, consumed <= length
 //@ outside: prefix lengths that are not an instance of this family (inputs shorter than 204 bytes are rejected up front)
 #[kani::proof]
 #[kani::unwind(8)]
@@ -1794,9 +1780,9 @@ fn c03_event_prefix_o2_350() {
 //@ timeout: 1500
 //@ mem: 14
 //@ covers: none
-//@ unwindset: read_sig=66; read_id=34; read_pubkey=34; read_hex=66; memcmp.0=34; event_outlen_at=400; event_prefix_at=400; read_u64=22; read_kind=8; burn_string=12; eat_whitespace=6; json_unescape=8
+//@ unwindset: read_sig=66; read_id=34; read_pubkey=34; read_hex=66; memcmp.0=34; event_outlen_at=400; event_prefix_at=400; read_u64=22; read_kind=8; burn_string=12; eat_whitespace=6; json_unescape=8; memchr=12; parse_json_event=10
 //@ encodes: Event::from_json, parse_json_event and every reader it calls
-//@ bounds: the valid 365-byte event text (order 2: content before tags) cut after 355 bytes, the last byte of the prefix arbitrary (truncation and single-byte corruption at the cut): no panic, consumed <= length
+//@ bounds: the valid 365-byte event text (order 2: content before tags) cut after 355 bytes (pure truncation), arbitrary prior output buffer: no panic, consumed <= length
 //@ outside: prefix lengths that are not an instance of this family (inputs shorter than 204 bytes are rejected up front)
 #[kani::proof]
 #[kani::unwind(8)]
@@ -1811,9 +1797,9 @@ fn c03_event_prefix_o2_355() {
 //@ timeout: 1500
 //@ mem: 14
 //@ covers: none
-//@ unwindset: read_sig=66; read_id=34; read_pubkey=34; read_hex=66; memcmp.0=34; event_outlen_at=400; event_prefix_at=400; read_u64=22; read_kind=8; burn_string=12; eat_whitespace=6; json_unescape=8
+//@ unwindset: read_sig=66; read_id=34; read_pubkey=34; read_hex=66; memcmp.0=34; event_outlen_at=400; event_prefix_at=400; read_u64=22; read_kind=8; burn_string=12; eat_whitespace=6; json_unescape=8; memchr=12; parse_json_event=10
 //@ encodes: Event::from_json, parse_json_event and every reader it calls
-//@ bounds: the valid 365-byte event text (order 2: content before tags) cut after 356 bytes, the last byte of the prefix arbitrary (truncation and single-byte corruption at the cut): no panic, consumed <= length
+//@ bounds: the valid 365-byte event text (order 2: content before tags) cut after 356 bytes (pure truncation), arbitrary prior output buffer: no panic, consumed <= length
 //@ outside: prefix lengths that are not an instance of this family (inputs shorter than 204 bytes are rejected up front)
 #[kani::proof]
 #[kani::unwind(8)]
@@ -1828,9 +1814,9 @@ fn c03_event_prefix_o2_356() {
 //@ timeout: 1500
 //@ mem: 14
 //@ covers: none
-//@ unwindset: read_sig=66; read_id=34; read_pubkey=34; read_hex=66; memcmp.0=34; event_outlen_at=400; event_prefix_at=400; read_u64=22; read_kind=8; burn_string=12; eat_whitespace=6; json_unescape=8
+//@ unwindset: read_sig=66; read_id=34; read_pubkey=34; read_hex=66; memcmp.0=34; event_outlen_at=400; event_prefix_at=400; read_u64=22; read_kind=8; burn_string=12; eat_whitespace=6; json_unescape=8; memchr=12; parse_json_event=10
 //@ encodes: Event::from_json, parse_json_event and every reader it calls
-//@ bounds: the valid 365-byte event text (order 2: content before tags) cut after 360 bytes, the last byte of the prefix arbitrary (truncation and single-byte corruption at the cut): no panic, consumed <= length
+//@ bounds: the valid 365-byte event text (order 2: content before tags) cut after 360 bytes (pure truncation), arbitrary prior output buffer: no panic, consumed <= length
 //@ outside: prefix lengths that are not an instance of this family (inputs shorter than 204 bytes are rejected up front)
 #[kani::proof]
 #[kani::unwind(8)]
@@ -1845,9 +1831,9 @@ fn c03_event_prefix_o2_360() {
 //@ timeout: 1500
 //@ mem: 14
 //@ covers: none
-//@ unwindset: read_sig=66; read_id=34; read_pubkey=34; read_hex=66; memcmp.0=34; event_outlen_at=400; event_prefix_at=400; read_u64=22; read_kind=8; burn_string=12; eat_whitespace=6; json_unescape=8
+//@ unwindset: read_sig=66; read_id=34; read_pubkey=34; read_hex=66; memcmp.0=34; event_outlen_at=400; event_prefix_at=400; read_u64=22; read_kind=8; burn_string=12; eat_whitespace=6; json_unescape=8; memchr=12; parse_json_event=10
 //@ encodes: Event::from_json, parse_json_event and every reader it calls
-//@ bounds: the valid 365-byte event text (order 2: content before tags) cut after 362 bytes, the last byte of the prefix arbitrary (truncation and single-byte corruption at the cut): no panic, consumed <= length
+//@ bounds: the valid 365-byte event text (order 2: content before tags) cut after 362 bytes (pure truncation), arbitrary prior output buffer: no panic, consumed <= length
 //@ outside: prefix lengths that are not an instance of this family (inputs shorter than 204 bytes are rejected up front)
 #[kani::proof]
 #[kani::unwind(8)]
@@ -1862,9 +1848,9 @@ fn c03_event_prefix_o2_362() {
 //@ timeout: 1500
 //@ mem: 14
 //@ covers: none
-//@ unwindset: read_sig=66; read_id=34; read_pubkey=34; read_hex=66; memcmp.0=34; event_outlen_at=400; event_prefix_at=400; read_u64=22; read_kind=8; burn_string=12; eat_whitespace=6; json_unescape=8
+//@ unwindset: read_sig=66; read_id=34; read_pubkey=34; read_hex=66; memcmp.0=34; event_outlen_at=400; event_prefix_at=400; read_u64=22; read_kind=8; burn_string=12; eat_whitespace=6; json_unescape=8; memchr=12; parse_json_event=10
 //@ encodes: Event::from_json, parse_json_event and every reader it calls
-//@ bounds: the valid 365-byte event text (order 2: content before tags) cut after 363 bytes, the last byte of the prefix arbitrary (truncation and single-byte corruption at the cut): no panic, consumed <= length
+//@ bounds: the valid 365-byte event text (order 2: content before tags) cut after 363 bytes (pure truncation), arbitrary prior output buffer: no panic, consumed <= length
 //@ outside: prefix lengths that are not an instance of this family (inputs shorter than 204 bytes are rejected up front)
 #[kani::proof]
 #[kani::unwind(8)]
@@ -1879,9 +1865,9 @@ fn c03_event_prefix_o2_363() {
 //@ timeout: 1500
 //@ mem: 14
 //@ covers: none
-//@ unwindset: read_sig=66; read_id=34; read_pubkey=34; read_hex=66; memcmp.0=34; event_outlen_at=400; event_prefix_at=400; read_u64=22; read_kind=8; burn_string=12; eat_whitespace=6; json_unescape=8
+//@ unwindset: read_sig=66; read_id=34; read_pubkey=34; read_hex=66; memcmp.0=34; event_outlen_at=400; event_prefix_at=400; read_u64=22; read_kind=8; burn_string=12; eat_whitespace=6; json_unescape=8; memchr=12; parse_json_event=10
 //@ encodes: Event::from_json, parse_json_event and every reader it calls
-//@ bounds: the valid 365-byte event text (order 2: content before tags) cut after 364 bytes, the last byte of the prefix arbitrary (truncation and single-byte corruption at the cut): no panic, consumed <= length
+//@ bounds: the valid 365-byte event text (order 2: content before tags) cut after 364 bytes (pure truncation), arbitrary prior output buffer: no panic, consumed <= length
 //@ outside: prefix lengths that are not an instance of this family (inputs shorter than 204 bytes are rejected up front)
 #[kani::proof]
 #[kani::unwind(8)]
@@ -1896,9 +1882,9 @@ fn c03_event_prefix_o2_364() {
 //@ timeout: 1500
 //@ mem: 14
 //@ covers: none
-//@ unwindset: read_sig=66; read_id=34; read_pubkey=34; read_hex=66; memcmp.0=34; event_outlen_at=400; event_prefix_at=400; read_u64=22; read_kind=8; burn_string=12; eat_whitespace=6; json_unescape=8
+//@ unwindset: read_sig=66; read_id=34; read_pubkey=34; read_hex=66; memcmp.0=34; event_outlen_at=400; event_prefix_at=400; read_u64=22; read_kind=8; burn_string=12; eat_whitespace=6; json_unescape=8; memchr=12; parse_json_event=10
 //@ encodes: Event::from_json, parse_json_event and every reader it calls
-//@ bounds: the valid 365-byte event text (order 2: content before tags) cut after 365 bytes, the last byte of the prefix arbitrary (truncation and single-byte corruption at the cut): no panic, consumed <= length
+//@ bounds: the valid 365-byte event text (order 2: content before tags) cut after 365 bytes (pure truncation), arbitrary prior output buffer: no panic, consumed <= length
 //@ outside: prefix lengths that are not an instance of this family (inputs shorter than 204 bytes are rejected up front)
 #[kani::proof]
 #[kani::unwind(8)]
